@@ -28,10 +28,23 @@ in TRUSTED, and only ever used as hypotheses of a post-condition:
   (P2) adding / removing a subsystem of dimension 1 to / from X changes nothing,  (P3) the reduced state of nothing has
   entropy 0 (the state is normalised).
 
-fdx / E4 providers (bottom of the file): simulate_counts labelling, the Pauli-string enumeration and normalisation of
-pauli_decomp, the argument plumbing of pauli_correlations, correlation on a complete small grid with the REAL ikron.
+Functions under contract (E1): check_dims_and_indices, mutinf_subsys, mutinf, schmidt_gap, partial_transpose_norm, logneg,
+negativity, logneg_subsys, one_way_classical_information, quantum_discord, concurrence (input state only), correlation, qid,
+ent_cross_matrix (ALL numbers of sites), simulate_counts, dephase, kraus_op, projector (ALL n), measure, purify (ALL d)
+(calc.py); gen_bipartite_spectral_fn.bipartite_spectral_fn (= entropy_subsys, tr_sqrt_subsys), lazy_ptr_linop,
+lazy_ptr_ppt_linop (approx_spectral.py).  partial_transpose itself is under contract in C15 (all n).
 
-Known failures on the unchanged tree (real defects, reproduced natively by ``replay``): see the report / index entry.
+fdx / E4 providers (``provider_fdx``): simulate_counts labelling on every basis state, the Pauli-string enumeration and
+normalisation of pauli_decomp (+ the arithmetic obligation nmlz(n) * 2**n == 1 for all n), the argument plumbing of
+pauli_correlations (callee stubbed), correlation on a complete small grid with the REAL ikron.
+
+Known failures on the unchanged tree (real defects, each reproduced natively -- ``replay`` of the contract / the fdx input):
+  * schmidt_gap      index obligation `eigenvalue-1-exists`: A of total dimension 1, B not -> IndexError      (C20-c)
+  * simulate_counts  `labels-use-base-phys_dim` (E1) / `certain-outcome-labelled-by-its-base-phys_dim-digits` and
+                     `valid-labels-and-counts-sum-to-C` (fdx, phys_dim 3, 4, 5): labels are binary            (C20-e)
+  * dephase          `number-of-non-zero-entries-is-the-requested-rank`, integer rand_rank = 1, d >= 2        (C20-f)
+  * quantum_discord  `first-party-is-sysa` / `second-(measured)-party-is-sysb`: sysa > sysb (any K), K = 2     (C20-g)
+  * correlation      fdx grid [sparse=True, ops=dense]: AttributeError when the two sites cover the system    (C20-k)
 """
 
 import ast
@@ -68,10 +81,12 @@ class SysSet:
 
 
 class St:
-    """a state / operator value: V-term + (optionally) its matrix size and the physical subsystem sitting at each position"""
+    """a state / operator value: V-term + (optionally) its matrix size and the physical subsystem sitting at each position
+    (`base`: the term before any relabelling of the positions)"""
 
-    def __init__(self, z, size=None, order=None, isvec=None):
+    def __init__(self, z, size=None, order=None, isvec=None, base=None):
         self.z, self.size, self.order, self.isvec = z, size, order, isvec
+        self.base = z if base is None else base
 
     def __repr__(self):
         return f"St({self.z})"
@@ -112,7 +127,9 @@ def mvec(x, K):
         out = []
         for q in range(K):
             cs = [zeq(e, q) for e in x]
-            out.append(True if any(c is True for c in cs) else (Or(*cs) if any(is_z3(c) for c in cs) else False))
+            # (disjuncts in a canonical order: the membership term does not depend on the order of the sequence)
+            out.append(True if any(c is True for c in cs) else (Or(*sorted([c for c in cs if is_z3(c)], key=str))
+                                                                 if any(is_z3(c) for c in cs) else False))
         return out
     raise Unsupported(f"not a subsystem set: {x!r}")
 
@@ -196,6 +213,21 @@ class Base(Contract):
             self._mono_table(cx)[t.get_id()] = (t, factors)
         return t
 
+    def on_fstring(self, cx, node):
+        """f-strings whose parts are concrete (index labels such as f"i{q}" with a concrete q) are python strings"""
+        out = ""
+        for part in node.values:
+            if isinstance(part, ast.Constant):
+                out += str(part.value)
+            elif isinstance(part, ast.FormattedValue) and part.format_spec is None and part.conversion == -1:
+                v = cx.ev(part.value)
+                if isinstance(v, bool) or not isinstance(v, (int, str)):
+                    return NotImplemented
+                out += str(v)
+            else:
+                return NotImplemented
+        return out
+
     def call(self, cx, name, args, kwargs, node):
         if name == "prod":
             fs = list(args[0])
@@ -239,6 +271,8 @@ class Base(Contract):
             v, cname = args
             if cname in ("numbers.Integral", "int", "numbers.Number"):
                 return is_int(v) if cname != "numbers.Number" else is_num(v)
+            if cname in ("float", "numbers.Real") and is_num(v):
+                return (not is_int(v)) if cname == "float" else True  # (kinds: an int is not a float; both are Real)
         if name == "ptr":
             p, dims, keep = args
             K = len(dims)
@@ -248,6 +282,10 @@ class Base(Contract):
         # a local closure (nested def) being called by name
         if name in cx.env and isinstance(cx.env[name], tuple) and len(cx.env[name]) == 3 and cx.env[name][0] == "def":
             return cx.call_closure(cx.env[name], args, kwargs)
+        if name == "__binop__" and (isinstance(args[1], St) or isinstance(args[2], St)) and \
+                all(isinstance(x, St) or is_num(x) for x in args[1:]):
+            # arithmetic on opaque operators: an uninterpreted symbol per operation (no algebraic laws assumed)
+            return St(U({"Sub": "minus"}.get(args[0], "op_" + args[0]), [x if isinstance(x, St) else R(x) for x in args[1:]]))
         return NotImplemented
 
 
@@ -317,7 +355,7 @@ class ShortcutBase(Base):
 
     def cases(self):
         return [NS(name=f"K={k},A={sname(A)},thresh={t}", K=k, A=A, thresh=t) for k in self.KS for A in subsets(k)
-                for t in thresh_cases()]
+                for t in thresh_cases() if k < 4 or t == "int"]  # (K = 4: the threshold kind that has both routes)
 
     def base_inputs(self, cx, case):
         mark_case(cx, K=case.K, **{f"A{q}": b for q, b in enumerate(case.A)})
@@ -335,7 +373,7 @@ class BipartiteSpectralFn(ShortcutBase):
     spectrum, P1), the approximate route exactly when a threshold is given and the size of the chosen side reaches it"""
 
     target = f"{APX}::gen_bipartite_spectral_fn.bipartite_spectral_fn"
-    floor = 40
+    floor = 300
 
     def inputs(self, cx, case):
         d = self.base_inputs(cx, case)
@@ -435,7 +473,7 @@ class PairBase(Base):
 
     def cases(self):
         return [NS(name=f"K={k},A={sname(A)},B={sname(B)},thresh={t}", K=k, A=A, B=B, thresh=t)
-                for k in self.KS for A, B in disjoint_pairs(k) for t in thresh_cases()]
+                for k in self.KS for A, B in disjoint_pairs(k) for t in thresh_cases() if k < 4 or t == "int"]
 
     def inputs(self, cx, case):
         mark_case(cx, K=case.K, **{f"A{q}": b for q, b in enumerate(case.A)}, **{f"B{q}": b for q, b in enumerate(case.B)})
@@ -456,7 +494,7 @@ class MutinfSubsys(PairBase):
     state, the dims and approx_thresh / **approx_opts unchanged"""
 
     target = f"{CALC}::mutinf_subsys"
-    floor = 100
+    floor = 300
 
     def call(self, cx, name, args, kwargs, node):
         if name == "entropy_subsys":
@@ -549,7 +587,7 @@ class SchmidtGap(Base):
     only when one side is trivial; reading l_1 requires that the reduced state has at least two eigenvalues"""
 
     target = f"{CALC}::schmidt_gap"
-    floor = 40
+    floor = 100
     bounded = ("entropies",)
 
     def cases(self):
@@ -573,11 +611,18 @@ class SchmidtGap(Base):
                 raise Unsupported("eigvalsh call shape")
             # [leaf] partial eigen-decomposition: min(k, size) eigenvalues, ordered by the rule `which`
             return EigList(rho, kwargs["k"], kwargs["which"], Min(kwargs["k"], rho.size))
+        if name == "__len__" and isinstance(args[0], EigList):
+            return args[0].n
         if name == "__getitem__" and isinstance(args[0], EigList):
             el, idx = args
             cx.oblige(f"index@{node.lineno}:eigenvalue-{idx}-exists", "safety", And(idx >= -el.n, idx < el.n), node.lineno)
             return self.EV(el.rho, el.k, el.which, idx)
         return super().call(cx, name, args, kwargs, node)
+
+    def attr(self, cx, base, attr, node):
+        if isinstance(base, EigList) and attr == "size":
+            return base.n
+        return NotImplemented
 
     def ensures(self, a, r, cx, case):
         K, A = case.K, list(case.A)
@@ -649,7 +694,7 @@ class PartialTransposeNorm(Base):
     norm_trace_dense(partial_transpose(p, dims, A), isherm=True)"""
 
     target = f"{CALC}::partial_transpose_norm"
-    floor = 40
+    floor = 80
 
     def cases(self):
         return [NS(name=f"K={k},A={sname(A)},{kind}", K=k, A=A, isvec=kind == "ket")
@@ -743,7 +788,7 @@ class LognegSubsys(PairBase):
     list -- i.e. the callee is asked for the same physical bipartition A | B of the reduced state"""
 
     target = f"{CALC}::logneg_subsys"
-    floor = 100
+    floor = 500
     KS = (2, 3, 4)
 
     def call(self, cx, name, args, kwargs, node):
@@ -943,6 +988,10 @@ class QuantumDiscord(ClosureBase):
             return st
         if name == "qu" and len(args) == 2 and args[1] == "dop":
             return St(U("dop", [args[0]]), order=[0, 1])
+        if name == "permute" and len(args) == 3 and isinstance(args[0], St) and args[0].order is not None and \
+                isinstance(args[2], (tuple, list)) and sorted(args[2]) == list(range(len(args[0].order))) and not kwargs:
+            # [leaf permute] new position q holds what old position perm[q] held
+            return St(U("permute", [args[0], *args[2]]), order=[args[0].order[q] for q in args[2]], base=args[0].base)
         if name == "mutual_information" and len(args) == 1 and not kwargs and isinstance(args[0], St):
             cx.events.append(("mutinf", args[0]))
             return U("mutinf_2x2", [args[0]], REAL)
@@ -985,9 +1034,9 @@ class QuantumDiscord(ClosureBase):
         st = ev["owci"]
         d["mutual-information-of-the-same-state"] = ev["mutinf"].z == st.z
         if case.K > 2:
-            d["reduced-state-of-the-pair"] = st.z == t_ptr(a.p, a.dims, mvec((a.sysa, a.sysb), case.K))
+            d["reduced-state-of-the-pair"] = st.base == t_ptr(a.p, a.dims, mvec((a.sysa, a.sysb), case.K))
         else:
-            d["the-state-itself-as-operator"] = st.z == U("dop", [a.p])
+            d["the-state-itself-as-operator"] = st.base == U("dop", [a.p])
         d["first-party-is-sysa"] = st.order is not None and zeq(st.order[0], a.sysa)
         d["second-(measured)-party-is-sysb"] = st.order is not None and zeq(st.order[1], a.sysb)
         # the objective, evaluated on arbitrary angles
@@ -1023,3 +1072,1943 @@ class QuantumDiscord(ClosureBase):
             return dict(call=call, observed=f"{type(e).__name__}: {e}", expected=0.0, reproduced=True)
         return dict(call=call, observed=got, expected=0.0, note="B = sysb carries an orthogonal classical register: D(A|B) = 0",
                     reproduced=bool(abs(got) > 1e-3))
+
+
+# =====================================================================================================================
+# correlation / qid : embedding arguments handed to ikron
+# =====================================================================================================================
+
+
+def t_ikron(ops, dims, inds):
+    """[leaf ikron, bounded in C15] the operators `ops` placed on the subsystems `inds` (in that pairing) of `dims`; the
+    options sparse / coo_build / stype only choose the REPRESENTATION of the same operator (trusted; dense and sparse
+    agreement is what the fdx grid and the bounded driver check)"""
+    ops = list(ops) if isinstance(ops, (tuple, list)) else [ops]
+    inds = list(inds) if isinstance(inds, (tuple, list)) else [inds]
+    return U(f"ikron{len(ops)}on{len(inds)}of{len(dims)}", [*ops, *dims, *inds])
+
+
+class IkronBase(ClosureBase):
+    def call(self, cx, name, args, kwargs, node):
+        if name == "ikron":
+            if len(args) != 3 or set(kwargs) - {"sparse", "coo_build", "stype"}:
+                raise Unsupported("ikron call shape")
+            ops, dims, inds = args
+            if not isinstance(dims, (list, tuple)):
+                raise Unsupported("ikron dims")
+            return St(t_ikron(ops, dims, inds))
+        if name == "expec" and len(args) == 2 and not kwargs:
+            return U("expec", args, REAL)
+        if name == "isvec" and len(args) == 1:
+            return cx.case.isvec
+        return super().call(cx, name, args, kwargs, node)
+
+
+@register
+class Correlation(IkronBase):
+    """<A_a B_b> - <A_a><B_b>: A is embedded at sysa and B at sysb of the SAME dims (qubits when dims is None), alone and
+    as the pair ((A, B), (sysa, sysb)); precomp_func=True returns the function of the state.  (The representation options
+    handed to ikron are not part of the post-condition.)"""
+
+    target = f"{CALC}::correlation"
+    floor = 16
+    bounded = ("decompositions-and-correlations",)
+
+    def cases(self):
+        return [NS(name=f"dims={dk},sparse={sk},precomp_func={pc}", dk=dk, sk=sk, pc=pc)
+                for dk in ("None:n=2", "None:n=3", "given:K=2", "given:K=3") for sk in ("None", "bool") for pc in (False, True)]
+
+    def inputs(self, cx, case):
+        K = int(case.dk[-1])
+        cx.ghost["spA"], cx.ghost["spB"] = cx.Bool("issparse_A"), cx.Bool("issparse_B")
+        return dict(p=cx.Opaque("p"), A=cx.Opaque("A"), B=cx.Opaque("B"), sysa=cx.Int("sysa"), sysb=cx.Int("sysb"),
+                    dims=None if case.dk.startswith("None") else tuple(dims_inputs(cx, K)),
+                    sparse=None if case.sk == "None" else cx.Bool("sparse"), precomp_func=case.pc)
+
+    def call(self, cx, name, args, kwargs, node):
+        if name == "infer_size" and len(args) == 1 and not kwargs:
+            return int(cx.case.dk[-1])  # [leaf] number of qubits of p (case)
+        if name == "issparse" and len(args) == 1:
+            return cx.ghost["spA"] if args[0] is cx.old.A else (cx.ghost["spB"] if args[0] is cx.old.B else NotImplemented)
+        return super().call(cx, name, args, kwargs, node)
+
+    def ensures(self, a, r, cx, case):
+        K = int(case.dk[-1])
+        dims = a.dims if a.dims is not None else (2,) * K
+        state = a.p
+        if case.pc:
+            ok = isinstance(r, tuple) and len(r) == 3 and r[0] == "def"
+            if not ok:
+                return {"returns-a-function-of-the-state": False}
+            state = cx.Opaque("any_state")
+            r = cx.call_closure(r, [state])
+        if not is_z3(r):
+            return {"returns-a-number": False}
+        ik = lambda ops, inds: t_ikron(ops, dims, inds)
+        ex = lambda op: U("expec", [op, state], REAL)
+        return {"<A_a B_b> - <A_a><B_b> with A on sysa and B on sysb of the same dims":
+                R(r) == ex(ik((a.A, a.B), (a.sysa, a.sysb))) - ex(ik((a.A,), a.sysa)) * ex(ik((a.B,), a.sysb))}
+
+
+@register
+class Qid(IkronBase):
+    """entry k of the result is  sum_{s in x,y,z} coeff * norm_func([rho, sigma_s on inds[k] of dims]) ** power  (rho the
+    projector of a ket), one entry per index in the order given (an int is one index)"""
+
+    target = f"{CALC}::qid"
+    floor = 8
+
+    def cases(self):
+        return [NS(name=f"inds={ik},{sk},precomp_func={pc}", ik=ik, isvec=sk == "ket", pc=pc)
+                for ik in ("int", "1", "2", "3") for sk in ("ket", "op") for pc in (False, True)]
+
+    def inputs(self, cx, case):
+        inds = cx.Int("ind") if case.ik == "int" else tuple(cx.Int(f"ind{k}") for k in range(int(case.ik)))
+        return dict(p=cx.Opaque("p"), dims=tuple(dims_inputs(cx, 3)), inds=inds, precomp_func=case.pc,
+                    sparse_comp=cx.Bool("sparse_comp"), norm_func=cx.Opaque("norm_func"), power=cx.Int("power"),
+                    coeff=cx.Real("coeff"))
+
+    def call(self, cx, name, args, kwargs, node):
+        if name == "pauli" and len(args) == 1 and isinstance(args[0], str) and not kwargs:
+            return St(U("pauli_" + args[0].lower(), []))
+        if name == "dop" and len(args) == 1:
+            return St(U("dop", args))
+        if name == "dot" and len(args) == 2:
+            return St(U("dot", args))
+        if name == "__binop__" and args[0] == "Sub" and isinstance(args[1], St) and isinstance(args[2], St):
+            return St(U("minus", [args[1], args[2]]))
+        if name == "norm_func" and len(args) == 1 and not kwargs:
+            return U("norm_func", [cx.old.norm_func, args[0]], REAL)
+        if name == "__pow__":
+            return U("pow", [R(args[0]), R(args[1])], REAL)
+        return super().call(cx, name, args, kwargs, node)
+
+    def ensures(self, a, r, cx, case):
+        inds = (a.inds,) if case.ik == "int" else a.inds
+        x = a.p
+        if case.pc:
+            ok = isinstance(r, tuple) and len(r) == 3 and r[0] == "def"
+            if not ok:
+                return {"returns-a-function-of-the-state": False}
+            x = cx.Opaque("any_state")
+            r = cx.call_closure(r, [x])
+        ok = isinstance(r, tuple) and len(r) == len(inds)
+        d = {"one-entry-per-index": ok}
+        if not ok:
+            return d
+        rho = U("dop", [x]) if case.isvec else unz(x)
+        for k, ind in enumerate(inds):
+            tot = 0
+            for s in "xyz":
+                op = t_ikron(U("pauli_" + s, []), a.dims, ind)
+                comm = U("minus", [U("dot", [rho, op]), U("dot", [op, rho])])
+                tot = tot + a.coeff * U("pow", [U("norm_func", [a.norm_func, comm], REAL), R(a.power)], REAL)
+            d[f"entry{k} = sum over x,y,z of coeff * ||[rho, sigma on inds[{k}]]|| ** power"] = is_z3(r[k]) and R(r[k]) == tot
+        return d
+
+
+# =====================================================================================================================
+# ent_cross_matrix : block index arithmetic (block size fixed per case, number of sites symbolic)
+# =====================================================================================================================
+
+INT = z3.IntSort()
+
+
+class Mat:
+    """2-d numpy array of opaque scalars: z3 array Int -> Int -> V and a shape; mutated in place by stores"""
+
+    def __init__(self, a, shape):
+        self.a, self.shape = a, tuple(shape)
+
+    def get(self, r, c):
+        return z3.Select(z3.Select(self.a, r), c)
+
+
+class QubitDims:
+    """the tuple (2,) * n of symbolic length n"""
+
+    def __init__(self, n):
+        self.n = n
+
+
+def fresh_mat(name):
+    return lambda cx: Mat(cx.Array(name, INT, INT, V), cx.env[name].shape)
+
+
+NANV = U("nan", [])
+
+
+@register
+class EntCrossMatrix(Base):
+    """for an arbitrary pair of blocks a <= b < n = sz_p // sz_blc (skolem pair):  ents[a, b] == ents[b, a] ==
+         a < b : ent_fn(ptr(p, qubits, sites of block a + sites of block b), dims=(2^blc, 2^blc)) / blc
+         a = b : ent_fn(purify(ptr(p, qubits, sites of block a)), dims=(2^blc, 2^blc)) / blc   or nan (calc_self_ent=False)
+       (pure state of exactly two blocks: ent_fn(p, dims=(2^blc, 2^blc)) / blc everywhere, nan on the diagonal if not
+       calc_self_ent), block a = sites a*blc .. a*blc+blc-1; result of shape (n, n).  upscale: shape (sz_p, sz_p) and, for an
+       arbitrary entry (r, c):  up[r, c] == ents[r // blc, c // blc] when both blocks exist, nan otherwise.  Every array access
+       is inside the array (safety)."""
+
+    target = f"{CALC}::ent_cross_matrix"
+    floor = 800
+    bounded = ("decompositions-and-correlations",)
+
+    def cases(self):
+        return [NS(name=f"blc={b},{'ket' if pure else 'op'},self={cs},upscale={up}", blc=b, pure=pure, cs=cs, up=up)
+                for b in (1, 2, 3) for pure in (True, False) for cs in (True, False) for up in (False, True)]
+
+    # ghosts: an arbitrary entry (r, c) of the upscaled array and its pair of blocks ga <= gb
+    def inputs(self, cx, case):
+        g = cx.ghost
+        g["sz_p"] = cx.Int("sz_p")
+        g["r"], g["c"], g["ga"], g["gb"] = z3.Int("r!sk"), z3.Int("c!sk"), z3.Int("a!sk"), z3.Int("b!sk")
+        return dict(p=cx.Opaque("p"), sz_blc=case.blc, ent_fn=cx.Opaque("ent_fn"), calc_self_ent=case.cs, upscale=case.up)
+
+    def requires(self, a, case):
+        # (the ghost constants are not inputs of the function: their ranges are the hypotheses of the skolemised claims)
+        sz, r, c, ga, gb = (z3.Int("sz_p"), z3.Int("r!sk"), z3.Int("c!sk"), z3.Int("a!sk"), z3.Int("b!sk"))
+        b = case.blc
+        n = sz / b
+        # (the range of the skolem PAIR is the hypothesis `pair_exists` of every claim about it, not an assumption: a system
+        # smaller than one block has no pair at all and is covered too)
+        return {"sz_p>=1": sz >= 1,
+                "skolem-entry": And(0 <= r, r < sz, 0 <= c, c < sz,
+                                    Implies(And(r / b < n, c / b < n), And(ga == Min(r / b, c / b), gb == Max(r / b, c / b))))}
+
+    def attr(self, cx, base, attr, node):
+        if base is None and attr == "np":
+            return NS(nan=NANV)
+        return NotImplemented
+
+    # ---- spec
+    def D(self, case):
+        return 2 ** case.blc
+
+    def ENT(self, cx, state):
+        case = cx.case
+        return U("divide", [U("ent_fn", [cx.old.ent_fn, state, self.D(case), self.D(case)]), case.blc])
+
+    def block(self, case, a):
+        return [a * case.blc + t for t in range(case.blc)]
+
+    def E(self, cx, ga, gb):
+        case, sz = cx.case, cx.ghost["sz_p"]
+        p = cx.old.p
+        keep = lambda sites: U(f"ptr_qubits{len(sites)}", [p, sz, *sites])
+        cross = self.ENT(cx, keep(self.block(case, ga) + self.block(case, gb)))
+        self_ = self.ENT(cx, U("purify", [keep(self.block(case, ga))])) if case.cs else NANV
+        gen = If(ga == gb, self_, cross)
+        if not case.pure:
+            return gen
+        bip = self.ENT(cx, p) if case.cs else If(ga == gb, NANV, self.ENT(cx, p))
+        return If(2 * case.blc == sz, bip, gen)
+
+    # ---- hooks
+    def call(self, cx, name, args, kwargs, node):
+        g = cx.ghost
+        if name == "infer_size" and len(args) == 1 and not kwargs:
+            return g["sz_p"]  # [leaf] number of qubits of p
+        if name == "isvec":
+            return cx.case.pure
+        if name == "__binop__" and args[0] == "Mult" and args[1] == (2,) and is_int(args[2]):
+            return QubitDims(args[2])
+        if name == "np.empty" and len(args) == 1:
+            return Mat(cx.Array("empty", INT, INT, V), args[0])
+        if name == "np.tile" and len(args) == 2 and is_z3(args[0]) and args[0].eq(NANV):
+            return Mat(z3.K(INT, z3.K(INT, NANV)), args[1])
+        if name == "ptr" and isinstance(args[1], QubitDims):
+            p, dims, keep = args
+            if p is not cx.old.p or not isinstance(keep, list):
+                raise Unsupported("ptr call shape")
+            cx.oblige(f"call-pre@{node.lineno}:ptr:dims-are-sz_p-qubits", "call-pre", dims.n == g["sz_p"], node.lineno)
+            cx.oblige(f"call-pre@{node.lineno}:ptr:sites-exist-and-are-distinct", "call-pre",
+                      And(*[And(0 <= s, s < g["sz_p"]) for s in keep], *[keep[x] < keep[x + 1] for x in range(len(keep) - 1)]),
+                      node.lineno)
+            return St(U(f"ptr_qubits{len(keep)}", [p, dims.n, *keep]))
+        if name == "purify" and len(args) == 1:
+            return St(U("purify", args))
+        if name == "ent_fn" and len(args) == 1 and set(kwargs) == {"dims"} and isinstance(kwargs["dims"], tuple) \
+                and len(kwargs["dims"]) == 2:
+            return U("ent_fn", [cx.old.ent_fn, args[0], *kwargs["dims"]])
+        if name == "__binop__" and args[0] == "Div" and is_z3(args[1]) and args[1].sort() == V and is_int(args[2]):
+            return U("divide", [args[1], args[2]])
+        if name == "__getitem__" and isinstance(args[0], Mat):
+            m, idx = args
+            if not (isinstance(idx, tuple) and len(idx) == 2 and all(is_int(x) for x in idx)):
+                raise Unsupported("matrix read")
+            for k in range(2):
+                cx.oblige(f"index@{node.lineno}:ax{k}", "safety", And(idx[k] >= 0, idx[k] < m.shape[k]), node.lineno)
+            return m.get(*idx)
+        if name == "__setitem__" and isinstance(args[0], Mat):
+            m, idx, val = args
+            if not (isinstance(idx, tuple) and len(idx) == 2):
+                raise Unsupported("matrix store")
+            val = unz(val)
+            if all(is_int(x) for x in idx):
+                for k in range(2):
+                    cx.oblige(f"index@{node.lineno}:store:ax{k}", "safety", And(idx[k] >= 0, idx[k] < m.shape[k]), node.lineno)
+                m.a = z3.Store(m.a, idx[0], z3.Store(z3.Select(m.a, idx[0]), idx[1], val))
+                return None
+            if all(isinstance(x, slice) and x.step is None for x in idx):
+                lo = [0 if x.start is None else x.start for x in idx]
+                hi = [m.shape[k] if x.stop is None else x.stop for k, x in enumerate(idx)]
+                for k in range(2):
+                    # numpy clips slice bounds silently; the blocks written here are meant to lie inside the array
+                    cx.oblige(f"enc@{node.lineno}:slice-inside-array:ax{k}", "enc", And(0 <= lo[k], lo[k] <= hi[k], hi[k] <= m.shape[k]),
+                              node.lineno)
+                x, y = z3.Int("x!lam"), z3.Int("y!lam")
+                old = m.a
+                m.a = z3.Lambda([x], z3.Lambda([y], z3.If(And(lo[0] <= x, x < hi[0], lo[1] <= y, y < hi[1]), val,
+                                                          z3.Select(z3.Select(old, x), y))))
+                return None
+            raise Unsupported("matrix store")
+        return super().call(cx, name, args, kwargs, node)
+
+    # ---- invariants
+    def pair_exists(self, cx):
+        g = cx.ghost
+        return And(0 <= g["ga"], g["ga"] <= g["gb"], g["gb"] < g["sz_p"] / cx.case.blc)
+
+    def done_pair(self, v, done):
+        """ents holds the value of the skolem pair, at both positions, when `done`"""
+        cx = v.cx
+        ga, gb = cx.ghost["ga"], cx.ghost["gb"]
+        e = self.E(cx, ga, gb)
+        return Implies(And(self.pair_exists(cx), done), And(v.ents.get(ga, gb) == e, v.ents.get(gb, ga) == e))
+
+    def inv0(self, v):
+        cx = v.cx
+        ga, gb = cx.ghost["ga"], cx.ghost["gb"]
+        whole = self.ENT(cx, cx.old.p)
+        return {"i-range": And(0 <= v.i, v.i <= v.n), "n": v.n == cx.ghost["sz_p"] / cx.case.blc,
+                "shape": And(v.ents.shape[0] == v.n, v.ents.shape[1] == v.n),
+                "entry": Implies(self.pair_exists(cx), And(v.ents.get(ga, gb) == If(And(ga == gb, ga < v.i), NANV, whole),
+                                                           v.ents.get(gb, ga) == If(And(ga == gb, ga < v.i), NANV, whole)))}
+
+    def inv1(self, v):
+        cx = v.cx
+        return {"t>=0": v._it1 >= 0, "n": v.n == cx.ghost["sz_p"] / cx.case.blc,
+                "shape": And(v.ents.shape[0] == v.n, v.ents.shape[1] == v.n),
+                "rows-done": self.done_pair(v, cx.ghost["ga"] < v._it1)}
+
+    def inv2(self, v):
+        cx = v.cx
+        ga, gb = cx.ghost["ga"], cx.ghost["gb"]
+        return {"t>=0": And(v._it1 >= 0, v._it2 >= 0), "i": v.i == cx.case.blc * v._it1, "n": v.n == cx.ghost["sz_p"] / cx.case.blc,
+                "shape": And(v.ents.shape[0] == v.n, v.ents.shape[1] == v.n), "row-exists": v._it1 < v.n,
+                "rows-done": self.done_pair(v, Or(ga < v._it1, And(ga == v._it1, gb < v._it1 + v._it2)))}
+
+    def up_entry(self, v, done):
+        cx = v.cx
+        g, b = cx.ghost, cx.case.blc
+        R_, C_ = g["r"] / b, g["c"] / b
+        both = And(R_ < v.n, C_ < v.n)
+        return v.up_ents.get(g["r"], g["c"]) == If(And(both, done(Min(R_, C_), Max(R_, C_))), self.E(cx, g["ga"], g["gb"]), NANV)
+
+    def inv3(self, v):
+        cx = v.cx
+        return {"i-range": And(0 <= v.i, v.i <= v.n), "n": v.n == cx.ghost["sz_p"] / cx.case.blc,
+                "shape": And(v.up_ents.shape[0] == cx.ghost["sz_p"], v.up_ents.shape[1] == cx.ghost["sz_p"]),
+                "entry": self.up_entry(v, lambda lo, hi: lo < v.i)}
+
+    def inv4(self, v):
+        cx = v.cx
+        return {"i-range": And(0 <= v.i, v.i < v.n, v._it4 >= 0, v.j == v.i + v._it4, v.j <= v.n),
+                "n": v.n == cx.ghost["sz_p"] / cx.case.blc,
+                "shape": And(v.up_ents.shape[0] == cx.ghost["sz_p"], v.up_ents.shape[1] == cx.ghost["sz_p"]),
+                "entry": self.up_entry(v, lambda lo, hi: Or(lo < v.i, And(lo == v.i, hi < v.j)))}
+
+    @property
+    def loops(self):
+        return {0: Loop("for i in range(n)", self.inv0, retype={"ents": fresh_mat("ents")}),
+                1: Loop("for i in range(0, sz_p - sz_blc + 1, sz_blc)", self.inv1, retype={"ents": fresh_mat("ents")}),
+                2: Loop("for j in range(i, sz_p - sz_blc + 1, sz_blc)", self.inv2, retype={"ents": fresh_mat("ents")}),
+                3: Loop("for i in range(n)", self.inv3, retype={"up_ents": fresh_mat("up_ents")}),
+                4: Loop("for j in range(i, n)", self.inv4, retype={"up_ents": fresh_mat("up_ents")})}
+
+    def ensures(self, a, r, cx, case):
+        g, b = cx.ghost, case.blc
+        sz = g["sz_p"]
+        n = sz / b
+        if not isinstance(r, Mat):
+            return {"returns-a-matrix": False}
+        e = self.E(cx, g["ga"], g["gb"])
+        if not case.up:
+            return {"shape-(n,n)": And(r.shape[0] == n, r.shape[1] == n),
+                    "entry-of-an-arbitrary-pair-of-blocks": Implies(self.pair_exists(cx), And(r.get(g["ga"], g["gb"]) == e,
+                                                                                              r.get(g["gb"], g["ga"]) == e))}
+        both = And(g["r"] / b < n, g["c"] / b < n)
+        return {"shape-(sz_p,sz_p)": And(r.shape[0] == sz, r.shape[1] == sz),
+                "arbitrary-upscaled-entry-is-the-entry-of-its-pair-of-blocks-or-nan": r.get(g["r"], g["c"]) == If(both, e, NANV)}
+
+
+# =====================================================================================================================
+# simulate_counts : outcome labelling and multinomial bookkeeping
+# =====================================================================================================================
+
+
+class Samples:
+    """rng.choice(d, size=C, p=probs): C integers of range(d)"""
+
+    def __init__(self, rng, d, size, probs, extra):
+        self.rng, self.d, self.size, self.probs, self.extra = rng, d, size, probs, extra
+
+
+class Freq:
+    """frequencies(samples): {value: number of occurrences}; the counts sum to len(samples)"""
+
+    def __init__(self, samples):
+        self.samples = samples
+
+
+class Keyed:
+    """keymap(f, d): the dict d with every key k replaced by f(k)"""
+
+    def __init__(self, f, d):
+        self.f, self.d = f, d
+
+
+class Label:
+    """the string a labelling function produces for the basis index `of`: positional digits in `base`, zero padded on the
+    left to `width` characters (base / width None = unknown); or, `digits` given: the concatenation of str(digit) for the
+    listed integer digits, most significant first"""
+
+    def __init__(self, of, base=None, width=None, fill="0", align=">", digits=None):
+        self.of, self.base, self.width, self.fill, self.align, self.digits = of, base, width, fill, align, digits
+
+
+class DigitCh:
+    """str(r) of a symbolic integer r"""
+
+    def __init__(self, r):
+        self.r = r
+
+
+FORMAT_BASES = {"b": 2, "o": 8, "d": 10, "x": 16, "X": 16}
+
+
+def parse_int_format(fmt):
+    """'{:0>5b}' -> (fill, align, width, base) of python's format mini-language for ONE integer field; None if not that"""
+    import re
+    m = re.fullmatch(r"\{:(?:(.)?([<>^=]))?(0)?(\d+)?([bodxX])\}", fmt)
+    if not m:
+        return None
+    fill, align, zero, width, typ = m.groups()
+    if zero and not align:
+        fill, align = "0", "="  # the '0' flag: sign-aware zero padding (same as right alignment for non-negative ints)
+    if align is None:
+        fill, align = " ", ">"
+    if fill is None:
+        fill = " "
+    return fill, ">" if align == "=" else align, int(width) if width else 0, FORMAT_BASES[typ]
+
+
+@register
+class SimulateCounts(Base):
+    """C samples of range(phys_dim ** n) drawn with the Born probabilities in basis order; the result maps the label of
+    each sampled index to its number of occurrences, where the label of index k is its n-digit base-phys_dim string (most
+    significant digit first, zero padded): that labelling is injective, so the counts sum to C"""
+
+    target = f"{CALC}::simulate_counts"
+    floor = 12
+    bounded = ("maps-and-measurement",)
+
+    def cases(self):
+        return [NS(name=f"n={n},{kind}", n=n, isop=kind == "op") for n in (1, 2, 3) for kind in ("ket", "op")]
+
+    def inputs(self, cx, case):
+        mark_case(cx, n=case.n, isop=case.isop)
+        return dict(p=cx.Opaque("p"), C=cx.Int("C"), phys_dim=cx.Int("phys_dim"), seed=cx.Opaque("seed"))
+
+    def requires(self, a, case):
+        return {"phys_dim>=2": a.phys_dim >= 2, "C>=0": a.C >= 0}
+
+    def attr(self, cx, base, attr, node):
+        if isinstance(base, St) and attr == "real":
+            return St(U("real", [base]))
+        if isinstance(base, str) and attr == "format":
+            return ("str.format", base)
+        return NotImplemented
+
+    def call(self, cx, name, args, kwargs, node):
+        if name == "np.random.default_rng" and len(args) == 1:
+            return ("rng", args[0])
+        if name == "infer_size" and 1 <= len(args) <= 2 and not set(kwargs) - {"base"}:
+            base = args[1] if len(args) == 2 else kwargs.get("base", 2)  # (default of the real signature: qubits)
+            cx.oblige(f"call-pre@{node.lineno}:infer_size:base-is-phys_dim", "call-pre", zeq(base, cx.old.phys_dim), node.lineno)
+            return cx.case.n  # [leaf] p has phys_dim ** n entries per side (case)
+        if name == "__pow__" and is_int(args[0]) and is_int(args[1]):
+            return U("int_pow", [args[0], args[1]], INT)
+        if name == "isop":
+            return cx.case.isop
+        if name in ("np.diag", "np.conj") and len(args) == 1:
+            return St(U(name[3:], args))
+        if name == "np.multiply" and len(args) == 2:
+            return St(U("multiply", args))
+        if name == ".reshape" and isinstance(args[0], St) and args[1:] == [-1]:
+            return St(U("flatten", [args[0]]))
+        if name == "rng.choice" and isinstance(cx.env.get("rng"), tuple) and len(args) == 1:
+            return Samples(cx.env["rng"], args[0], kwargs.get("size"), kwargs.get("p"),
+                           {k: v for k, v in kwargs.items() if k not in ("size", "p")})
+        if name == "str" and len(args) == 1 and isinstance(args[0], int):
+            return str(args[0])
+        if name == "str" and len(args) == 1 and is_z3(args[0]) and z3.is_int(args[0]):
+            return DigitCh(args[0])
+        if name == ".join" and args[0] == "" and len(args) == 2 and isinstance(args[1], (list, tuple)) and args[1] and \
+                all(isinstance(x, DigitCh) for x in args[1]):
+            return Label(None, digits=[x.r for x in args[1]])
+        if name == "divmod" and len(args) == 2 and is_int(args[0]) and is_z3(args[1]):
+            # euclidean division by a positive divisor (side condition emitted): a == b*q + r, 0 <= r < b
+            cx.oblige(f"enc@{node.lineno}:divisor-positive", "enc", args[1] > 0, node.lineno)
+            q, r_ = cx.Int("quot"), cx.Int("rem")
+            cx.assume(And(Z(args[0]) == args[1] * q + r_, 0 <= r_, r_ < args[1]))
+            return q, r_
+        if name == "frequencies" and len(args) == 1 and isinstance(args[0], Samples):
+            return Freq(args[0])
+        if name == "keymap" and len(args) == 2:
+            return Keyed(args[0], args[1])
+        if name == "np.base_repr" and 2 <= len(args) <= 3:
+            return Label(args[0], base=args[1] if not kwargs else kwargs.get("base"), width=None)
+        if name in (".zfill", ".rjust") and isinstance(args[0], Label) and args[0].width is None:
+            if name == ".rjust" and args[2:] != ["0"]:
+                raise Unsupported("rjust fill")
+            return Label(args[0].of, args[0].base, args[1])
+        return super().call(cx, name, args, kwargs, node)
+
+    def label_of(self, cx, f, k):
+        """the label the function `f` gives to the basis index k"""
+        if isinstance(f, tuple) and len(f) == 2 and f[0] == "str.format":
+            ps = parse_int_format(f[1])
+            if ps is None:
+                raise Unsupported(f"format string {f[1]!r}")
+            fill, align, width, base = ps
+            return Label(k, base, width, fill, align)
+        if isinstance(f, tuple) and len(f) == 3 and f[0] == "lambda":
+            return cx.apply_lambda(f, [k])
+        if isinstance(f, tuple) and len(f) == 3 and f[0] == "def":
+            return cx.call_closure(f, [k])
+        raise Unsupported("labelling function")
+
+    def ensures(self, a, r, cx, case):
+        n = case.n
+        ok = isinstance(r, Keyed) and isinstance(r.d, Freq)
+        d = {"result = keymap(label, frequencies(samples))": ok}
+        if not ok:
+            return d
+        s = r.d.samples
+        born = U("flatten", [U("real", [U("diag", [a.p])])]) if case.isop else \
+            U("flatten", [U("real", [U("multiply", [U("conj", [a.p]), a.p])])])
+        D = PROD([a.phys_dim] * n)
+        d["C-samples"] = s.size is not None and zeq(s.size, a.C)
+        d["of-range(phys_dim**n)"] = is_int(s.d) and zeq(s.d, D)
+        d["with-the-Born-probabilities-in-basis-order"] = isinstance(s.probs, St) and s.probs.z == born and not s.extra
+        d["seeded-generator"] = s.rng == ("rng", a.seed)
+        k = z3.Int("k!index")
+        cx.assume(And(0 <= k, k < D))
+        lab = self.label_of(cx, r.f, k)
+        if isinstance(lab, Label) and lab.digits is not None:
+            ds = lab.digits
+            val = 0
+            for x in ds:
+                val = val * a.phys_dim + x
+            d["labels-have-n-digits-zero-padded"] = len(ds) == n
+            d["labels-use-base-phys_dim"] = And(*[And(0 <= x, x < a.phys_dim) for x in ds], val == k)
+            d["every-digit-is-one-character"] = And(*[x < 10 for x in ds])  # str(digit): two characters from 10 on
+            return d
+        ok = isinstance(lab, Label) and lab.of is k
+        d["label-is-a-positional-digit-string-of-the-index"] = ok
+        if ok:
+            d["labels-use-base-phys_dim"] = lab.base is not None and zeq(lab.base, a.phys_dim)
+            d["labels-have-n-digits-zero-padded"] = lab.width is not None and zeq(lab.width, n) and lab.fill == "0" and lab.align == ">"
+        return d
+
+    def replay(self, model):
+        import numpy as np
+        import quimb as qu
+
+        n, pd = model_int(model, "case!n"), model_int(model, "phys_dim")
+        if n is None or pd is None:
+            return dict(note="no (n, phys_dim) in the model", reproduced=False)
+        pd = min(max(pd, 2), 5)
+        isop = str(model.get("case!isop")) == "True"
+        D = pd ** n
+        k = D - 1
+        v = np.zeros((D, 1), dtype=complex)
+        v[k] = 1
+        x = qu.qarray(v @ v.conj().T if isop else v)
+        digits, kk = [], k
+        for _ in range(n):
+            kk, rr = divmod(kk, pd)
+            digits.append("0123456789abcdefghijklmnopqrstuvwxyz"[rr])
+        exp = {"".join(reversed(digits)): 5}
+        call = f"simulate_counts(basis state {k} of {D} as {'operator' if isop else 'ket'}, 5, phys_dim={pd}, seed=0)"
+        try:
+            got = qu.simulate_counts(x, 5, phys_dim=pd, seed=0)
+        except Exception as e:  # noqa
+            return dict(call=call, observed=f"{type(e).__name__}: {e}", expected=str(exp), reproduced=True)
+        got = {str(kx): int(vx) for kx, vx in dict(got).items()}
+        return dict(call=call, observed=str(got), expected=str(exp), reproduced=got != exp)
+
+
+# =====================================================================================================================
+# dephase : count vs proportion
+# =====================================================================================================================
+
+
+class Dg:
+    """a real diagonal (d x d) matrix with `count` equal non-zero entries of value `val` (positions: all of them, or a
+    random choice of distinct / possibly repeated positions)"""
+
+    def __init__(self, dim, count, val, where="all", distinct=True):
+        self.dim, self.count, self.val, self.where, self.distinct = dim, count, val, where, distinct
+
+
+class DiagView:
+    def __init__(self, of):
+        self.of = of
+
+
+class Scaled:
+    def __init__(self, c, x):
+        self.c, self.x = c, x
+
+
+class Mix:
+    def __init__(self, parts):
+        self.parts = parts
+
+
+@register
+class Dephase(Base):
+    """(1 - p) * rho + p * D with D a diagonal state of trace one having k equal non-zero entries: k = d when rand_rank is
+    None; rand_rank an INTEGER: k = that many entries (clamped to 1..d), at distinct random positions (all positions when
+    k = d); rand_rank a FLOAT: the proportion, k = int(rand_rank * d) clamped to 1..d"""
+
+    target = f"{CALC}::dephase"
+    floor = 10
+    bounded = ("maps-and-measurement",)
+
+    def cases(self):
+        return [NS(name=f"rand_rank={k}", kind=k) for k in ("None", "int", "float")]
+
+    def inputs(self, cx, case):
+        mark_case(cx, **{"rand_rank_is_" + case.kind: True})
+        cx.ghost["d"] = cx.Int("d")
+        rr = None if case.kind == "None" else (cx.Int("rand_rank") if case.kind == "int" else cx.Real("rand_rank"))
+        return dict(rho=St(cx.Val("rho")), p=cx.Real("p"), rand_rank=rr)
+
+    def requires(self, a, case):
+        return {"d>=1": z3.Int("d") >= 1}
+
+    def attr(self, cx, base, attr, node):
+        if isinstance(base, St) and attr == "shape":
+            return (cx.ghost["d"], cx.ghost["d"])
+        return NotImplemented
+
+    def call(self, cx, name, args, kwargs, node):
+        if name == "eye" and len(args) == 1 and not kwargs:
+            return Dg(args[0], args[0], 1)
+        if name == "__binop__" and args[0] == "Div" and isinstance(args[1], Dg) and is_num(args[2]):
+            cx.oblige(f"divzero@{node.lineno}", "safety", args[2] != 0, node.lineno)
+            return Dg(args[1].dim, args[1].count, R(args[1].val) / R(args[2]), args[1].where, args[1].distinct)
+        if name == "np.zeros" and len(args) == 1 and isinstance(args[0], tuple) and len(args[0]) == 2:
+            if zeq(args[0][0], args[0][1]) is False:
+                raise Unsupported("zeros shape")
+            return Dg(args[0][0], 0, 0, "none")
+        if name == "np.einsum" and len(args) == 2 and isinstance(args[1], Dg):
+            spec = args[0].replace(" ", "") if isinstance(args[0], str) else ""
+            if not (len(spec) == 5 and spec[0] == spec[1] == spec[4] and spec[2:4] == "->"):
+                raise Unsupported("einsum subscripts")
+            return DiagView(args[1])  # [leaf] einsum('aa->a', M) is a writeable view of the diagonal of M
+        if name == "np.arange" and len(args) == 1:
+            return ("arange", args[0])
+        if name == "np.random.choice":
+            pool = args[0]
+            if not (isinstance(pool, tuple) and pool[0] == "arange") or set(kwargs) - {"size", "replace"}:
+                raise Unsupported("choice call shape")
+            return ("choice", pool[1], kwargs.get("size", args[1] if len(args) > 1 else None), kwargs.get("replace", True))
+        if name == "__setitem__" and isinstance(args[0], DiagView) and isinstance(args[1], tuple) and args[1][0] == "choice":
+            view, (_, pool, size, replace), val = args
+            g = view.of
+            if g.where != "none" or size is None:
+                raise Unsupported("diagonal store")
+            cx.oblige(f"index@{node.lineno}:positions-on-the-diagonal", "safety", zeq(pool, g.dim), node.lineno)
+            g.count, g.val, g.where, g.distinct = size, val, "random", replace is False
+            return None
+        if name == "__binop__" and args[0] == "Mult" and is_num(args[1]) and isinstance(args[2], (St, Dg)):
+            return Scaled(args[1], args[2])
+        if name == "__binop__" and args[0] == "Add" and isinstance(args[1], Scaled) and isinstance(args[2], Scaled):
+            return Mix([args[1], args[2]])
+        return super().call(cx, name, args, kwargs, node)
+
+    def ensures(self, a, r, cx, case):
+        d_ = cx.ghost["d"]
+        ok = isinstance(r, Mix) and len(r.parts) == 2 and isinstance(r.parts[0].x, St) and isinstance(r.parts[1].x, Dg)
+        d = {"(1-p)*rho + p*dephaser": ok}
+        if not ok:
+            return d
+        g = r.parts[1].x
+        d["coefficients"] = And(R(r.parts[0].c) == 1 - a.p, R(r.parts[1].c) == a.p, r.parts[0].x.z == a.rho.z)
+        d["dephaser-has-the-dimension-of-rho"] = zeq(g.dim, d_)
+        clamp = lambda k: Min(Max(1, k), d_)
+        if case.kind == "None":
+            want = d_
+        elif case.kind == "int":
+            want = clamp(a.rand_rank)
+        else:
+            t = z3.Int("trunc!spec")
+            x = a.rand_rank * R(d_)
+            cx.assume(If(x >= 0, And(R(t) <= x, R(t) + 1 > x), And(R(t) >= x, R(t) - 1 < x)))  # def: t = int(rand_rank * d)
+            want = clamp(t)
+        d["number-of-non-zero-entries-is-the-requested-rank"] = zeq(g.count, want)
+        d["entries-at-distinct-positions"] = g.distinct is True
+        d["unit-trace"] = R(g.count) * R(g.val) == 1
+        return d
+
+    def replay(self, model):
+        import numpy as np
+        import quimb as qu
+
+        if str(model.get("case!rand_rank_is_int")) != "True":
+            return dict(note="replay implemented for the integer kind", reproduced=False)
+        d_, rr = model_int(model, "d"), model_int(model, "rand_rank")
+        if d_ is None or rr is None:
+            return dict(note="no (d, rand_rank) in the model", reproduced=False)
+        d_ = min(max(d_, 1), 6)
+        rho = np.diag(np.arange(1, d_ + 1, dtype=float))
+        rho = qu.qarray(rho / np.trace(rho))
+        call = f"dephase(rho[{d_}x{d_}], 0.5, rand_rank={rr})   (integer rand_rank)"
+        want = min(max(1, rr), d_)
+        try:
+            out = np.asarray(qu.dephase(rho, 0.5, rr))
+        except Exception as e:  # noqa
+            return dict(call=call, observed=f"{type(e).__name__}: {e}", expected=f"{want} non-zero entries", reproduced=True)
+        D = (out - 0.5 * np.asarray(rho)) / 0.5
+        nnz = int((np.abs(np.diag(D)) > 1e-12).sum())
+        return dict(call=call, observed=f"dephaser with {nnz} non-zero diagonal entries", expected=f"{want} non-zero entries",
+                    reproduced=nnz != want)
+
+
+# =====================================================================================================================
+# kraus_op : which index of which tensor is summed (index calculus of the two contractions)
+# =====================================================================================================================
+
+
+def canon_contraction(operands, out):
+    """canonical form of a tensor contraction.  operands: list of (tensor key, labels); out: labels.  The operands are
+    ordered by tensor key, then every label is replaced by the number of its first occurrence (operands in that order, then
+    the output): two contractions have the same canonical form iff they are the same sum up to renaming of the labels"""
+    ops = sorted(operands, key=lambda t: t[0])  # (stable: the same tensor twice keeps the order given)
+    ren = {}
+    ren_of = lambda l: ren.setdefault(l, len(ren))
+    body = [(k, tuple(ren_of(l) for l in labs)) for k, labs in ops]
+    o = tuple(ren_of(l) for l in out)
+    if any(out.count(l) > 1 for l in out) or any(l not in {x for _, ls in ops for x in ls} for l in out):
+        raise Unsupported("malformed output labels")
+    return ";".join(f"{k}{list(ls)}" for k, ls in body) + "->" + str(list(o))
+
+
+def einsum_implicit(spec, nops):
+    """numpy einsum subscripts -> (list of label strings per operand, output labels); implicit output = the labels that
+    appear exactly once, in alphabetical order"""
+    spec = spec.replace(" ", "")
+    lhs, arrow, rhs = spec.partition("->")
+    parts = lhs.split(",")
+    if len(parts) != nops or not all(p.isalpha() for p in parts) or (arrow and not (rhs.isalpha() or rhs == "")):
+        raise Unsupported(f"einsum subscripts {spec!r}")
+    if not arrow:
+        allc = "".join(parts)
+        rhs = "".join(sorted(c for c in set(allc) if allc.count(c) == 1))
+    return [tuple(p) for p in parts], tuple(rhs)
+
+
+class Ten:
+    """an array in a contraction: tensor key ('E' Kraus stack, 'E*' its conjugate, 'rho'), shape it was reshaped to"""
+
+    def __init__(self, key, shape=None, z=None):
+        self.key, self.shape, self.z = key, shape, z
+
+
+def where_cases(K):
+    for m in range(1, K + 1):
+        for w in itertools.permutations(range(K), m):
+            yield w
+
+
+@register
+class KrausOp(Base):
+    """sigma = sum_k E_k rho E_k^dagger with E_k acting on the subsystems `where` (its tensor factors in THAT order) of
+    dims.  Checked as index calculus: rho is reshaped to dims + dims, the stack of Kraus operators to (K,) + kdims + kdims
+    with kdims = dims[where], and the contraction array_contract((E, rho, E*), ...) is -- up to renaming of labels --
+      E[K, a_w.., a'_w..] rho[.. a'_q (q in where) | a_q .., .. b'_q | b_q ..] E*[K, b_w.., b'_w..] -> [a_0.., b_0..]
+    reshaped to (D, D), D = prod(dims).  check=True: ValueError exactly when || einsum(E*[k,i,j] E[k,i,l] -> [j,l]) -
+    eye(d) ||_fro > 1e-12.  ValueError when exactly one of dims / where is given."""
+
+    target = f"{CALC}::kraus_op"
+    floor = 150
+    bounded = ("maps-and-measurement",)
+
+    def cases(self):
+        out = []
+        for check in (False, True):
+            out.append(NS(name=f"whole,check={check}", K=0, where=None, wint=False, check=check, arr=True, bad=None))
+            for K in (1, 2, 3):
+                for w in where_cases(K):
+                    out.append(NS(name=f"K={K},where={'.'.join(map(str, w))},check={check}", K=K, where=w, wint=False,
+                                  check=check, arr=True, bad=None))
+                if not check:
+                    for q in range(K):
+                        out.append(NS(name=f"K={K},where=int {q}", K=K, where=(q,), wint=True, check=False, arr=True, bad=None))
+        out.append(NS(name="whole,Ek=list", K=0, where=None, wint=False, check=True, arr=False, bad=None))
+        out.append(NS(name="K=2,where=1.0,Ek=list", K=2, where=(1, 0), wint=False, check=False, arr=False, bad=None))
+        out.append(NS(name="dims-without-where", K=2, where=None, wint=False, check=False, arr=True, bad="where"))
+        out.append(NS(name="where-without-dims", K=0, where=(0,), wint=False, check=False, arr=True, bad="dims"))
+        return out
+
+    def inputs(self, cx, case):
+        g = cx.ghost
+        g["nk"], g["dE"] = cx.Int("n_kraus"), cx.Int("d_kraus")
+        g["normval"] = None
+        dims = tuple(dims_inputs(cx, case.K)) if case.K else None
+        where = None if case.where is None else (case.where[0] if case.wint else case.where)
+        return dict(rho=Ten("rho"), Ek=Ten("E", shape=(g["nk"], g["dE"], g["dE"])) if case.arr else ("list-of-kraus-operators",),
+                    dims=dims, where=where, check=case.check)
+
+    def requires(self, a, case):
+        return {"dims>=1": dims_ge1(a.dims) if a.dims else True}
+
+    raises = {"ValueError": True}
+
+    def attr(self, cx, base, attr, node):
+        if isinstance(base, Ten) and attr == "shape" and base.shape is not None:
+            return base.shape
+        return NotImplemented
+
+    def call(self, cx, name, args, kwargs, node):
+        g = cx.ghost
+        if name == "__isinstance__" and args[1] == "np.ndarray":
+            return isinstance(args[0], Ten)
+        if name == "np.stack" and args[0] == ("list-of-kraus-operators",) and kwargs == {"axis": 0}:
+            return Ten("E", shape=(g["nk"], g["dE"], g["dE"]))  # [leaf] K arrays (d, d) stacked along a new first axis
+        if name == ".conj" and isinstance(args[0], Ten) and args[0].key == "E":
+            return Ten("E*", args[0].shape)
+        if name == ".reshape" and isinstance(args[0], Ten):
+            shape = args[1] if len(args) == 2 and isinstance(args[1], tuple) else tuple(args[1:])
+            return Ten(args[0].key, shape, args[0].z)
+        if name == "np.einsum":
+            labs, out = einsum_implicit(args[0], len(args) - 1)
+            if not all(isinstance(t, Ten) and len(l) == len(t.shape or ()) for t, l in zip(args[1:], labs)):
+                raise Unsupported("einsum operands")
+            return Ten("S", shape=None, z=U("contract:" + canon_contraction([(t.key, l) for t, l in zip(args[1:], labs)], out), []))
+        if name == "eye" and len(args) == 1 and not kwargs:
+            return St(U("eye", [args[0]]))
+        if name == "__binop__" and args[0] == "Sub" and isinstance(args[1], Ten) and args[1].z is not None and isinstance(args[2], St):
+            return St(U("minus", [args[1].z, args[2]]))
+        if name == "norm" and len(args) == 2 and args[1] == "fro" and not kwargs:
+            g["normval"] = U("norm_fro", [args[0]], REAL)
+            return g["normval"]
+        if name == "__genexp__":
+            if cx.ev(args[0].generators[0].iter) is None:
+                raise PyRaise("TypeError", node.lineno)  # python: 'NoneType' object is not iterable
+            return NotImplemented
+        if name == "array_contract" and len(args) == 3 and not kwargs:
+            tens, inds, out = args
+            if not (all(isinstance(t, Ten) for t in tens) and len(tens) == len(inds)):
+                raise Unsupported("array_contract operands")
+            for t, l in zip(tens, inds):
+                if t.shape is not None and len(t.shape) != len(l) and t.key != "rho":
+                    raise PyRaise("ValueError", node.lineno)
+            g["contraction"] = (list(zip(tens, inds)), out)
+            return Ten("sigma", None, U("contract:" + canon_contraction([(t.key, tuple(l)) for t, l in zip(tens, inds)], tuple(out)), []))
+        return super().call(cx, name, args, kwargs, node)
+
+    def ensures_raise(self, a, exc, cx, case):
+        g = cx.ghost
+        d = {"only-ValueError": exc == "ValueError"}
+        if case.bad:
+            d["raises-because-exactly-one-of-dims/where-is-given"] = True
+            return d
+        if case.check and g.get("normval") is not None:
+            want = U("norm_fro", [U("minus", [U("contract:" + canon_contraction([("E*", ("k", "i", "j")), ("E", ("k", "i", "l"))],
+                                                                                ("j", "l")), []), U("eye", [g["dE"]])])], REAL)
+            d["raises-only-when-sum_k E_k^dagger E_k differs from the identity"] = And(g["normval"] == want, want > Z(1e-12))
+            return d
+        d["no-raise-without-check"] = False
+        return d
+
+    def ensures(self, a, r, cx, case):
+        g = cx.ghost
+        if case.bad:
+            return {"must-raise-when-exactly-one-of-dims/where-is-given": False}
+        d = {}
+        if case.check:
+            want = U("norm_fro", [U("minus", [U("contract:" + canon_contraction([("E*", ("k", "i", "j")), ("E", ("k", "i", "l"))],
+                                                                                ("j", "l")), []), U("eye", [g["dE"]])])], REAL)
+            d["completeness-was-checked"] = g.get("normval") is not None and And(g["normval"] == want, want <= Z(1e-12))
+        ok = isinstance(r, Ten) and r.key == "sigma" and "contraction" in g
+        d["returns-the-contraction"] = ok
+        if not ok:
+            return d
+        ops, out = g["contraction"]
+        byk = {t.key: t for t, _ in ops}
+        d["operands-are-E-rho-E*"] = sorted(byk) == ["E", "E*", "rho"]
+        if sorted(byk) != ["E", "E*", "rho"]:
+            return d
+        if not case.K:
+            spec = canon_contraction([("E", ("K", "a", "a'")), ("rho", ("a'", "b'")), ("E*", ("K", "b", "b'"))], ("a", "b"))
+            d["sum_k E_k rho E_k^dagger"] = r.z.eq(U("contract:" + spec, []))
+            d["no-reshape"] = r.shape is None and byk["rho"].shape is None and byk["E"].shape == (g["nk"], g["dE"], g["dE"])
+            return d
+        N, w = case.K, case.where
+        A = lambda q: f"a{q}"
+        Ap = lambda q: f"a'{q}"
+        B = lambda q: f"b{q}"
+        Bp = lambda q: f"b'{q}"
+        spec = canon_contraction([
+            ("E", ("K", *[A(q) for q in w], *[Ap(q) for q in w])),
+            ("rho", (*[Ap(q) if q in w else A(q) for q in range(N)], *[Bp(q) if q in w else B(q) for q in range(N)])),
+            ("E*", ("K", *[B(q) for q in w], *[Bp(q) for q in w]))],
+            (*[A(q) for q in range(N)], *[B(q) for q in range(N)]))
+        d["E acts on the subsystems `where` of the ket side, E^dagger on the bra side"] = r.z.eq(U("contract:" + spec, []))
+        kd = [a.dims[q] for q in w]
+        sh = byk["rho"].shape
+        d["rho-reshaped-to-dims+dims"] = sh is not None and len(sh) == 2 * N and And(*[zeq(x, y) for x, y in zip(sh, a.dims + a.dims)])
+        for key in ("E", "E*"):
+            sh = byk[key].shape
+            d[f"{key}-reshaped-to-(K,)+dims[where]+dims[where]"] = sh is not None and len(sh) == 1 + 2 * len(w) and sh[0] == -1 and \
+                And(*[zeq(x, y) for x, y in zip(sh[1:], kd + kd)])
+        D = PROD(a.dims)
+        d["result-reshaped-to-(D,D)"] = r.shape is not None and len(r.shape) == 2 and And(zeq(r.shape[0], D), zeq(r.shape[1], D))
+        return d
+
+
+# =====================================================================================================================
+# projector / measure : eigenvalue -> column selection
+# =====================================================================================================================
+
+el_of = z3.Function("eigenvalue_at", V, INT, REAL)  # entry i of a spectrum
+
+
+class Spec_:
+    """1-d array of eigenvalues (n entries): entry i is el_of(z, i)"""
+
+    def __init__(self, z, n):
+        self.z, self.n = z, n
+
+
+class Vecs:
+    """matrix whose column i is the eigenvector of eigenvalue i"""
+
+    def __init__(self, z, n, dag=False):
+        self.z, self.n, self.dag = z, n, dag
+
+
+class Shift:
+    def __init__(self, el, lam, absd=False):
+        self.el, self.lam, self.absd = el, lam, absd
+
+
+class Mask:
+    """boolean array  |el_i - lam| < tol   (absd False: el_i - lam < tol)"""
+
+    def __init__(self, el, lam, tol, absd=True):
+        self.el, self.lam, self.tol, self.absd = el, lam, tol, absd
+
+    def at(self, i):
+        x = el_of(self.el.z, i) - R(self.lam)
+        return (If(x >= 0, x, -x) if self.absd else x) < R(self.tol)
+
+
+class Col:
+    def __init__(self, vecs, i, dag=False):
+        self.vecs, self.i, self.dag = vecs, i, dag
+
+
+class Outer:
+    def __init__(self, i, j, vecs):
+        self.i, self.j, self.vecs = i, j, vecs
+
+
+class Acc:
+    """sum of outer products |v_i><v_i| of the columns of `vecs`: multiplicity of every column (z3 array Int -> Int)"""
+
+    def __init__(self, mult, vecs):
+        self.mult, self.vecs = mult, vecs
+
+
+class EigBase(Base):
+    def eig_inputs(self, cx, kind):
+        g = cx.ghost
+        g["n"] = cx.Int("n")
+        g["el"], g["ev"] = Spec_(cx.Val("el"), g["n"]), Vecs(cx.Val("ev"), g["n"])
+        if kind == "tuple":
+            return (g["el"], g["ev"])
+        g["A"] = cx.Opaque("A")
+        return g["A"]
+
+    def call(self, cx, name, args, kwargs, node):
+        g = cx.ghost
+        if name == "__isinstance__" and args[1] == "(tuple, list)":
+            return isinstance(args[0], (tuple, list))
+        if name == "eigh" and len(args) == 1 and args[0] is g.get("A"):
+            g["eigh_kwargs"] = dict(kwargs)
+            return (g["el"], g["ev"])  # [leaf] eigenvalues and, column i, the eigenvector of eigenvalue i
+        if name == "__binop__" and args[0] in ("Sub", "Add") and isinstance(args[1], Spec_) and is_num(args[2]):
+            return Shift(args[1], args[2] if args[0] == "Sub" else -R(args[2]))
+        if name == "abs" and len(args) == 1 and isinstance(args[0], Shift):
+            return Shift(args[0].el, args[0].lam, True)
+        if name == "__cmp__" and args[0] == "<" and isinstance(args[1], Shift) and is_num(args[2]):
+            return Mask(args[1].el, args[1].lam, args[2], args[1].absd)
+        return super().call(cx, name, args, kwargs, node)
+
+    def attr(self, cx, base, attr, node):
+        if isinstance(base, (Vecs, Col)) and attr == "H":
+            return Vecs(base.z, base.n, not base.dag) if isinstance(base, Vecs) else Col(base.vecs, base.i, not base.dag)
+        if isinstance(base, Spec_) and attr == "size":
+            return base.n
+        return NotImplemented
+
+
+SKJ = z3.Int("j!col")  # an arbitrary column
+
+
+@register
+class Projector(EigBase):
+    """P = sum of |v_i><v_i| over exactly the columns i with |el_i - eigenvalue| < tol, each once (proved for an arbitrary
+    column j); (el, ev) is the given pair or eigh(A, autoblock=autoblock)"""
+
+    target = f"{CALC}::projector"
+    floor = 8
+    bounded = ("maps-and-measurement",)
+
+    def cases(self):
+        return [NS(name=f"A={k}", kind=k) for k in ("tuple", "operator")]
+
+    def inputs(self, cx, case):
+        return dict(A=self.eig_inputs(cx, case.kind), eigenvalue=cx.Real("eigenvalue"), tol=cx.Real("tol"),
+                    autoblock=cx.Bool("autoblock"))
+
+    def requires(self, a, case):
+        return {"n>=0": z3.Int("n") >= 0, "skolem-column": And(0 <= SKJ, SKJ < z3.Int("n"))}
+
+    def call(self, cx, name, args, kwargs, node):
+        g = cx.ghost
+        if name == "np.argwhere" and len(args) == 1 and isinstance(args[0], Mask):
+            mask = args[0]
+            m = cx.Int("n_selected")
+            w = z3.Function(cx._name("selected"), INT, INT)
+            pos = z3.Function(cx._name("position_of"), INT, INT)
+            g.update(mask=mask, m=m, w=w, pos=pos)
+            # [leaf np.argwhere] the m indices with a true entry, in increasing order -- instances at the skolem column:
+            cx.assume(m >= 0)
+            cx.assume(Implies(mask.at(SKJ), And(0 <= pos(SKJ), pos(SKJ) < m, w(pos(SKJ)) == SKJ)))
+            from vf.pyvc import SymIter
+            return SymIter(m, lambda t: w(t))
+        if name == "__getslice__" and type(args[0]).__name__ == "SymIter" and isinstance(args[1], int) and args[1] >= 0 \
+                and args[2] is None and args[3] is None:
+            it, lo = args[0], args[1]
+            from vf.pyvc import SymIter
+            return SymIter(If(it.length >= lo, it.length - lo, 0), lambda t: it.getter(t + lo))
+        if name == "np.zeros_like" and len(args) == 1 and isinstance(args[0], Vecs):
+            return Acc(z3.K(INT, z3.IntVal(0)), args[0])
+        if name == "__getitem__" and isinstance(args[0], Vecs) and isinstance(args[1], tuple) and len(args[1]) == 2 \
+                and args[1][0] == slice(None, None, None) and is_int(args[1][1]) and not args[0].dag:
+            cx.oblige(f"index@{node.lineno}:column-exists", "safety", And(0 <= args[1][1], args[1][1] < args[0].n), node.lineno)
+            return Col(args[0], args[1][1])
+        if name == "__binop__" and args[0] == "MatMult" and isinstance(args[1], Col) and isinstance(args[2], Col) \
+                and not args[1].dag and args[2].dag:
+            return Outer(args[1].i, args[2].i, args[1].vecs)
+        if name == "__binop__" and args[0] == "Add" and isinstance(args[1], Acc) and isinstance(args[2], Outer):
+            acc, o = args[1], args[2]
+            if o.vecs.z is not acc.vecs.z and not o.vecs.z.eq(acc.vecs.z):
+                raise Unsupported("outer product of another matrix")
+            cx.oblige(f"enc@{node.lineno}:outer-product-of-one-column-with-itself", "enc", zeq(o.i, o.j), node.lineno)
+            return Acc(z3.Store(acc.mult, o.i, z3.Select(acc.mult, o.i) + 1), acc.vecs)
+        return super().call(cx, name, args, kwargs, node)
+
+    def inv(self, v):
+        g = v.cx.ghost
+        t = v._it0
+        return {"included-so-far": z3.Select(v.P.mult, SKJ) == If(And(g["mask"].at(SKJ), g["pos"](SKJ) < t), 1, 0),
+                "same-eigenvectors": v.P.vecs.z.eq(g["ev"].z)}
+
+    def facts(self, v):
+        g = v.cx.ghost
+        t, w, pos, m = v._it0, g["w"], g["pos"], g["m"]
+        # [leaf np.argwhere] instances at the current position t and the skolem column: entries in range and selected,
+        # strictly increasing (hence distinct)
+        return [Implies(And(0 <= t, t < m), And(0 <= w(t), w(t) < g["n"], g["mask"].at(w(t)))),
+                Implies(And(0 <= t, t < m, 0 <= pos(SKJ), pos(SKJ) < m, pos(SKJ) < t), w(pos(SKJ)) < w(t)),
+                Implies(And(0 <= t, t < m, 0 <= pos(SKJ), pos(SKJ) < m, t < pos(SKJ)), w(t) < w(pos(SKJ)))]
+
+    @property
+    def loops(self):
+        return {0: Loop("for i in which", self.inv, facts=self.facts,
+                        retype={"P": lambda cx: Acc(cx.Array("P_mult", INT, INT), cx.ghost["ev"])})}
+
+    def ensures(self, a, r, cx, case):
+        g = cx.ghost
+        ok = isinstance(r, Acc) and "mask" in g
+        d = {"returns-a-sum-of-outer-products-of-eigenvectors": ok}
+        if not ok:
+            return d
+        want = Mask(g["el"], a.eigenvalue, a.tol)
+        d["column-included-exactly-once-iff-its-eigenvalue-is-within-tol"] = z3.Select(r.mult, SKJ) == If(want.at(SKJ), 1, 0)
+        d["of-the-eigenvectors-of-A"] = r.vecs.z.eq(g["ev"].z)
+        if case.kind == "operator":
+            d["autoblock-passed-to-eigh"] = same_opts(g.get("eigh_kwargs", {}), {"autoblock": a.autoblock})
+        return d
+
+
+@register
+class Measure(EigBase):
+    """outcome probabilities p_j = <v_j|p|v_j> (|<v_j|psi>|^2) paired with eigenvalue j; a random outcome is el[j] for j
+    drawn from range(n) with those probabilities; the state is projected with projector((el, ev), eigenvalue, tol) and
+    normalised by the total probability of the SAME eigenspace (|el - eigenvalue| < tol); returns (eigenvalue, state)"""
+
+    target = f"{CALC}::measure"
+    floor = 8
+    bounded = ("maps-and-measurement",)
+
+    def cases(self):
+        return [NS(name=f"A={k},{s},eigenvalue={e}", kind=k, isvec=s == "ket", given=e == "given")
+                for k in ("tuple", "operator") for s in ("ket", "op") for e in ("None", "given")]
+
+    def inputs(self, cx, case):
+        return dict(p=Ten("p"), A=self.eig_inputs(cx, case.kind), eigenvalue=cx.Real("eigenvalue") if case.given else None,
+                    tol=cx.Real("tol"))
+
+    def call(self, cx, name, args, kwargs, node):
+        g = cx.ghost
+        if name == "isvec":
+            return cx.case.isvec
+        if name == "np.arange" and len(args) == 1:
+            return ("arange", args[0])
+        if name == "__binop__" and args[0] == "MatMult" and isinstance(args[1], Vecs) and args[1].dag and args[2] is cx.old.p:
+            return St(U("overlaps", [args[1].z, U("p", [])]))  # ev.H @ psi: entry j is <v_j|psi>
+        if name == "abs" and len(args) == 1 and isinstance(args[0], St):
+            return St(U("abs", args))
+        if name == "__binop__" and args[0] == "Pow" and isinstance(args[1], St) and args[2] == 2:
+            return St(U("square", [args[1]]))
+        if name == ".flatten" and isinstance(args[0], St):
+            return St(U("flatten", [args[0]]))
+        if name == "array_contract" and len(args) == 3 and not kwargs:
+            tens, inds, out = args
+            keys = []
+            for t in tens:
+                if isinstance(t, Vecs) and t.z.eq(g["ev"].z):
+                    keys.append("ev^H" if t.dag else "ev")
+                elif t is cx.old.p:
+                    keys.append("p")
+                else:
+                    raise Unsupported("array_contract operand")
+            return Ten("pj", None, U("contract:" + canon_contraction([(k, tuple(l)) for k, l in zip(keys, inds)], tuple(out)), []))
+        if name == "np.random.choice" and len(args) == 1 and not set(kwargs) - {"p"}:
+            j = cx.Int("j_drawn")
+            g["draw"] = (args[0], kwargs.get("p"), j)
+            if isinstance(args[0], tuple) and args[0][0] == "arange":
+                cx.assume(And(0 <= j, j < args[0][1]))  # [leaf] choice returns an element of the pool range(len)
+            return j
+        if name == "__getitem__" and isinstance(args[0], Spec_) and is_int(args[1]):
+            cx.oblige(f"index@{node.lineno}:eigenvalue-exists", "safety", And(0 <= args[1], args[1] < args[0].n), node.lineno)
+            return el_of(args[0].z, args[1])
+        if name == "projector" and len(args) == 1 and isinstance(args[0], tuple) and len(args[0]) == 2 and \
+                isinstance(args[0][0], Spec_) and isinstance(args[0][1], Vecs) and not set(kwargs) - {"eigenvalue", "tol"}:
+            # [callee projector, own contract] defaults of the real signature: eigenvalue=1.0, tol=1e-12
+            return St(U("projector", [args[0][0].z, args[0][1].z, R(kwargs.get("eigenvalue", 1.0)), R(kwargs.get("tol", 1e-12))]))
+        if name == "__getitem__" and isinstance(args[1], Mask):
+            return ("masked", args[0], args[1])
+        if name == "np.sum" and len(args) == 1 and isinstance(args[0], tuple) and args[0][0] == "masked":
+            _, pj, mk = args[0]
+            return U("sum_where_within_tol", [unz(pj.z if isinstance(pj, Ten) else pj), mk.el.z, R(mk.lam), R(mk.tol)], REAL)
+        if name == "__pow__" and is_z3(args[0]) and is_num(args[1]):
+            return U("pow", [R(args[0]), R(args[1])], REAL)
+        if name == "__binop__" and args[0] == "Div" and args[1] is cx.old.p and is_z3(args[2]):
+            return St(U("divide", [U("p", []), R(args[2])]))
+        if name == "__binop__" and args[0] == "MatMult" and isinstance(args[1], St) and args[2] is cx.old.p:
+            return St(U("matmul", [args[1], U("p", [])]))
+        if name == "__binop__" and args[0] == "MatMult" and isinstance(args[1], St) and isinstance(args[2], St):
+            return St(U("matmul", [args[1], args[2]]))
+        if name == "__binop__" and args[0] == "Div" and isinstance(args[1], St) and is_z3(args[2]):
+            return St(U("divide", [args[1], R(args[2])]))
+        return super().call(cx, name, args, kwargs, node)
+
+    def attr(self, cx, base, attr, node):
+        if isinstance(base, Ten) and base.key == "pj" and attr == "real":
+            return Ten("pj", None, U("real", [base.z]))
+        if isinstance(base, St) and attr == "H":
+            return St(U("dagger", [base]))
+        return super().attr(cx, base, attr, node)
+
+    def ensures(self, a, r, cx, case):
+        g = cx.ghost
+        ok = isinstance(r, tuple) and len(r) == 2 and is_z3(r[0]) and isinstance(r[1], St)
+        d = {"returns-(eigenvalue, state)": ok}
+        if not ok:
+            return d
+        lam, after = r
+        pvec = U("p", [])
+        if case.isvec:
+            pj = U("flatten", [U("square", [U("abs", [U("overlaps", [g["ev"].z, pvec])])])])
+        else:
+            pj = U("real", [U("contract:" + canon_contraction([("ev^H", ("j", "k")), ("p", ("k", "l")), ("ev", ("l", "j"))], ("j",)), [])])
+        if case.given:
+            d["the-given-eigenvalue-is-returned"] = lam.eq(a.eigenvalue)
+        else:
+            ok = "draw" in g
+            d["random-outcome"] = ok
+            if ok:
+                pool, probs, j = g["draw"]
+                d["index-drawn-from-range(n)"] = isinstance(pool, tuple) and pool[0] == "arange" and zeq(pool[1], g["n"])
+                d["with-probability-<v_j|p|v_j>"] = probs is not None and unz(probs.z if isinstance(probs, Ten) else probs).eq(pj)
+                d["outcome-is-the-eigenvalue-of-the-drawn-index"] = lam.eq(el_of(g["el"].z, j))
+        P = U("projector", [g["el"].z, g["ev"].z, R(lam), R(a.tol)])
+        tot = U("sum_where_within_tol", [pj, g["el"].z, R(lam), R(a.tol)], REAL)
+        if case.isvec:
+            d["P psi / sqrt(total probability of the eigenspace)"] = after.z == U("matmul", [P, U("divide", [
+                pvec, U("pow", [tot, R(0.5)], REAL)])])
+        else:
+            d["P rho P^dagger / total probability of the eigenspace"] = after.z == U("divide", [
+                U("matmul", [U("matmul", [P, pvec]), U("dagger", [P])]), tot])
+        if case.kind == "operator":
+            d["eigh-of-A"] = g.get("eigh_kwargs") == {}
+        return d
+
+
+# =====================================================================================================================
+# lazy partial-trace operators (approx_spectral.py): which axes are summed, which are rows / columns
+# =====================================================================================================================
+
+
+class TenT:
+    """quimb Tensor: data (a Ten) + one label per axis"""
+
+    def __init__(self, data, inds):
+        self.data, self.inds = data, list(inds)
+
+
+class TNet:
+    def __init__(self, tensors):
+        self.tensors = list(tensors)
+
+
+class LinOp:
+    def __init__(self, tn, left, right, opts):
+        self.tn, self.left, self.right, self.opts = tn, list(left), list(right), opts
+
+
+def ordered_subsets(K, nonempty=True):
+    """sorted tuples and, for sets of two or more, also the reversed tuple (an order that is not the index order)"""
+    for bits in subsets(K, nonempty=nonempty):
+        t = tuple(q for q in range(K) if bits[q])
+        yield t
+        if len(t) > 1:
+            yield t[::-1]
+
+
+class LazyBase(Base):
+    def call(self, cx, name, args, kwargs, node):
+        if name == "np.asarray" and len(args) == 1:
+            return args[0]
+        if name == ".reshape" and isinstance(args[0], Opaque) and len(args) == 2 and isinstance(args[1], (list, tuple)):
+            return Ten("psi", tuple(args[1]), args[0].z)
+        if name == "Tensor" and len(args) == 1 and set(kwargs) == {"inds"} and isinstance(args[0], Ten):
+            return TenT(args[0], kwargs["inds"])
+        if name == ".conjugate" and isinstance(args[0], Ten) and args[0].key == "psi":
+            return Ten("psi*", args[0].shape, args[0].z)
+        if name == "__binop__" and args[0] == "BitAnd" and isinstance(args[1], TenT) and isinstance(args[2], TenT):
+            return TNet([args[1], args[2]])  # [leaf] `&` of two tensors: a network contracting their equal labels
+        if name == ".aslinearoperator" and isinstance(args[0], TNet) and len(args) == 3:
+            return LinOp(args[0], args[1], args[2], dict(kwargs))
+        return super().call(cx, name, args, kwargs, node)
+
+    def attr(self, cx, base, attr, node):
+        if isinstance(base, TenT) and attr == "data":
+            return base.data
+        return NotImplemented
+
+    def common(self, a, r, cx, psi):
+        """the network is psi (reshaped to dims) and its conjugate, one label per subsystem axis each; returns
+        (checks, ket labels, bra labels) or (checks, None, None)"""
+        K = len(a.dims)
+        ok = isinstance(r, LinOp) and len(r.tn.tensors) == 2 and {t.data.key for t in r.tn.tensors} == {"psi", "psi*"}
+        d = {"operator-of-the-network-psi-&-psi*": ok}
+        if not ok:
+            return d, None, None
+        ket = [t for t in r.tn.tensors if t.data.key == "psi"][0]
+        bra = [t for t in r.tn.tensors if t.data.key == "psi*"][0]
+        d["state-reshaped-to-dims"] = And(*[t.data.z is psi.z and len(t.data.shape) == K and
+                                            And(*[zeq(x, y) for x, y in zip(t.data.shape, a.dims)]) for t in (ket, bra)])
+        d["one-label-per-subsystem"] = len(ket.inds) == K and len(bra.inds) == K and all(isinstance(x, str) for x in ket.inds + bra.inds)
+        d["labels-of-one-tensor-distinct"] = len(set(ket.inds)) == len(ket.inds) and len(set(bra.inds)) == len(bra.inds)
+        d["options-passed-through"] = same_opts(r.opts, a.linop_opts)
+        if not (d["one-label-per-subsystem"] and d["labels-of-one-tensor-distinct"]):
+            return d, None, None
+        # a label shared by the two tensors must sit on the SAME axis of both (it is then summed over that subsystem)
+        d["shared-labels-on-the-same-axis"] = all((k in bra.inds) == (k == bra.inds[q]) for q, k in enumerate(ket.inds))
+        return d, ket.inds, bra.inds
+
+
+@register
+class LazyPtrLinop(LazyBase):
+    """rows x columns = (ket axes of A in some order pi) x (bra axes of A in the SAME order pi), every axis outside A summed
+    (shared label), no axis of A summed: the operator is the reduced state of A (subsystems in the order pi)"""
+
+    target = f"{APX}::lazy_ptr_linop"
+    floor = 150
+
+    def cases(self):
+        out = [NS(name=f"K={k},sysa={'.'.join(map(str, t))}", K=k, sysa=t, sint=False) for k in (1, 2, 3, 4) for t in ordered_subsets(k)]
+        out += [NS(name=f"K={k},sysa=int {q}", K=k, sysa=(q,), sint=True) for k in (2, 3) for q in range(k)]
+        return out
+
+    def inputs(self, cx, case):
+        return dict(psi_ab=cx.Opaque("psi_ab"), dims=dims_inputs(cx, case.K), sysa=case.sysa[0] if case.sint else case.sysa,
+                    linop_opts=opts_case(cx))
+
+    def ensures(self, a, r, cx, case):
+        d, ket, bra = self.common(a, r, cx, a.psi_ab)
+        if ket is None:
+            return d
+        K, A = case.K, set(case.sysa)
+        d["exactly-the-axes-outside-A-are-summed"] = all((ket[q] == bra[q]) == (q not in A) for q in range(K))
+        ok = len(r.left) == len(A) and len(r.right) == len(A) and all(x in ket for x in r.left)
+        d["rows-are-the-ket-axes-of-A-each-once"] = ok and sorted(ket.index(x) for x in r.left) == sorted(A)
+        d["columns-are-the-bra-axes-of-A-in-the-same-order"] = ok and [bra[ket.index(x)] for x in r.left] == r.right
+        return d
+
+
+@register
+class LazyPtrPptLinop(LazyBase):
+    """axes outside A u B summed; for the kept axes in one common order pi: rows = (bra axis if in A else ket axis),
+    columns = (ket axis if in A else bra axis) -- the reduced state of A u B partially transposed over A"""
+
+    target = f"{APX}::lazy_ptr_ppt_linop"
+    floor = 400
+
+    def cases(self):
+        out = []
+        for k in (2, 3, 4):
+            for A, B in disjoint_pairs(k):
+                ta, tb = tuple(q for q in range(k) if A[q]), tuple(q for q in range(k) if B[q])
+                out.append(NS(name=f"K={k},A={sname(A)},B={sname(B)}", K=k, sysa=ta, sysb=tb, ints=False))
+                if len(ta) > 1 or len(tb) > 1:
+                    out.append(NS(name=f"K={k},A={sname(A)},B={sname(B)},reversed", K=k, sysa=ta[::-1], sysb=tb[::-1], ints=False))
+                if len(ta) == 1 and len(tb) == 1 and k == 3:
+                    out.append(NS(name=f"K={k},A=int {ta[0]},B=int {tb[0]}", K=k, sysa=ta, sysb=tb, ints=True))
+        return out
+
+    def inputs(self, cx, case):
+        return dict(psi_abc=cx.Opaque("psi_abc"), dims=dims_inputs(cx, case.K), sysa=case.sysa[0] if case.ints else case.sysa,
+                    sysb=case.sysb[0] if case.ints else case.sysb, linop_opts=opts_case(cx))
+
+    def ensures(self, a, r, cx, case):
+        d, ket, bra = self.common(a, r, cx, a.psi_abc)
+        if ket is None:
+            return d
+        K, A, B = case.K, set(case.sysa), set(case.sysb)
+        AB = A | B
+        d["exactly-the-axes-outside-A-u-B-are-summed"] = all((ket[q] == bra[q]) == (q not in AB) for q in range(K))
+        ok = len(r.left) == len(AB) and len(r.right) == len(AB) and all(x in ket or x in bra for x in r.left + r.right)
+        d["one-row-label-and-one-column-label-per-kept-axis"] = ok
+        if not ok or not d["exactly-the-axes-outside-A-u-B-are-summed"]:
+            return d
+        axis = lambda x: ket.index(x) if x in ket else bra.index(x)
+        d["rows-and-columns-list-the-kept-axes-in-one-common-order"] = [axis(x) for x in r.left] == [axis(x) for x in r.right] and \
+            sorted(axis(x) for x in r.left) == sorted(AB)
+        d["rows: bra axis on A, ket axis on B"] = all(x == (bra[axis(x)] if axis(x) in A else ket[axis(x)]) for x in r.left)
+        d["columns: ket axis on A, bra axis on B"] = all(x == (ket[axis(x)] if axis(x) in A else bra[axis(x)]) for x in r.right)
+        return d
+
+
+# =====================================================================================================================
+# providers: fdx (the REAL function on a complete finite domain, post-condition evaluated exactly) and E4 (ast)
+# =====================================================================================================================
+
+
+def _load(relpath, modname):
+    """the module under test: the installed one when it is the file below the engine's REPO, else (mutant testing) the
+    file below REPO executed as a scratch sub-module of the same package (relative imports resolve to the real package)"""
+    import importlib
+    import importlib.util
+
+    mod = importlib.import_module(modname)
+    want = os.path.realpath(os.path.join(P.REPO, relpath))
+    if os.path.realpath(mod.__file__) == want:
+        return mod
+    spec = importlib.util.spec_from_file_location(modname + "__c20_scratch", want)
+    m = importlib.util.module_from_spec(spec)
+    spec.loader.exec_module(m)
+    return m
+
+
+def _ob(fn, label, ok, t0, model=None, detail=None, unknown=False, kind="fdx", backend="exhaustive", engine="fdx", path=CALC):
+    from vf.framework import ObResult
+
+    if not ok and not unknown and isinstance(model, dict):
+        ce = (model.get("counterexample") or [None])[0]
+        if isinstance(ce, dict) and "call" in ce:
+            # the counterexample is an input of the real function: a native replay by construction
+            model = dict(model, native_replay=dict(call=ce["call"], observed=ce.get("observed", ce.get("raised")),
+                                                   expected=ce.get("expected"), reproduced=True))
+    return ObResult(id=f"{path}::{fn}::{label}", kind=kind, status="unknown" if unknown else ("discharged" if ok else "failed"),
+                    backend=backend, solver_s=time.time() - t0, function=f"{path}::{fn}", model=None if (ok and not unknown) else model,
+                    detail=detail, engine=engine)
+
+
+def _digits(k, base, n):
+    out = []
+    for _ in range(n):
+        k, r = divmod(k, base)
+        out.append("0123456789abcdefghijklmnopqrstuvwxyz"[r])
+    return "".join(reversed(out))
+
+
+def provider_simulate_counts(tier):
+    """simulate_counts on EVERY computational basis state of phys_dim ** n <= 125 (256 thorough) levels, as ket and as
+    projector: the outcome is certain, so the result must be exactly {n-digit base-phys_dim string of the index: C};
+    and on the uniform superposition: valid, distinct labels whose counts sum to C"""
+    import numpy as np
+
+    calc = _load(CALC, "quimb.calc")
+    import quimb as qu
+
+    out = []
+    grid = [(pd, n) for pd in (2, 3, 4, 5) for n in (1, 2, 3, 4) if pd ** n <= (256 if tier == "thorough" else 125)]
+    for pd in sorted({g[0] for g in grid}):
+        t0 = time.time()
+        bad, bad_sum, ncalls = [], [], 0
+        for n in [g[1] for g in grid if g[0] == pd]:
+            D = pd ** n
+            for k in range(D):
+                v = np.zeros((D, 1), dtype=complex)
+                v[k] = 1
+                for rep in ("ket", "op"):
+                    x = qu.qarray(v if rep == "ket" else v @ v.T)
+                    C = 3 + (k % 4)
+                    call = f"simulate_counts(basis state {k} of {pd}**{n} as {rep}, {C}, phys_dim={pd}, seed={k})"
+                    ncalls += 1
+                    exp = {_digits(k, pd, n): C}
+                    try:
+                        got = {str(a): int(b) for a, b in dict(calc.simulate_counts(x, C, phys_dim=pd, seed=k)).items()}
+                    except Exception as e:  # noqa
+                        bad.append(dict(call=call, raised=f"{type(e).__name__}: {e}", expected=str(exp)))
+                        continue
+                    if got != exp:
+                        bad.append(dict(call=call, observed=str(got), expected=str(exp)))
+            # multinomial bookkeeping on a state with every outcome possible
+            u = qu.qarray(np.ones((D, 1), dtype=complex) / np.sqrt(D))
+            for C in (0, 1, 57):
+                call = f"simulate_counts(uniform superposition of {pd}**{n}, {C}, phys_dim={pd}, seed=7)"
+                ncalls += 1
+                try:
+                    got = dict(calc.simulate_counts(u, C, phys_dim=pd, seed=7))
+                    valid = {_digits(k, pd, n) for k in range(D)}
+                    okk = sum(int(b) for b in got.values()) == C and all(str(a) in valid for a in got) and \
+                        all(int(b) >= 1 for b in got.values())
+                    if not okk:
+                        bad_sum.append(dict(call=call, observed=str(got)[:300], expected=f"labels among the {D} {n}-digit base-{pd} "
+                                                                                         f"strings, positive counts summing to {C}"))
+                except Exception as e:  # noqa
+                    bad_sum.append(dict(call=call, raised=f"{type(e).__name__}: {e}"))
+        dom = f"phys_dim={pd}, n in {[g[1] for g in grid if g[0] == pd]}: {ncalls} calls"
+        out.append(_ob("simulate_counts", f"certain-outcome-labelled-by-its-base-phys_dim-digits[phys_dim={pd}]", not bad, t0,
+                       model=dict(domain=dom, violations=len(bad), counterexample=bad[:1], more=bad[1:5])))
+        out.append(_ob("simulate_counts", f"valid-labels-and-counts-sum-to-C[phys_dim={pd}]", not bad_sum, t0,
+                       model=dict(domain=dom, violations=len(bad_sum), counterexample=bad_sum[:1], more=bad_sum[1:5])))
+    return out
+
+
+PAULI_TEXTBOOK = {"I": [[1, 0], [0, 1]], "X": [[0, 1], [1, 0]], "Y": [[0, -1j], [1j, 0]], "Z": [[1, 0], [0, -1]]}
+
+_pow_of = {}
+
+
+def pow_fn(base):
+    """spec function base ** n for n >= 0:  pow(0) = 1, pow(n + 1) = base * pow(n)"""
+    return _pow_of.setdefault(base, z3.Function(f"pow{base}", INT, INT))
+
+
+@lemmas.lemma("C20", "pow2-positive-base")
+def lem_pow_b():
+    p = pow_fn(2)
+    return [p(0) == 1], p(0) >= 1
+
+
+@lemmas.lemma("C20", "pow2-positive-step")
+def lem_pow_s():
+    p, n = pow_fn(2), z3.Int("n")
+    return [n >= 0, p(n) >= 1, p(n + 1) == 2 * p(n)], p(n + 1) >= 1
+
+
+class _LambdaEval(Contract):
+    """evaluates the normalisation lambda on a symbolic n: an integer constant to the power +-n is pow_c(n) / its inverse"""
+
+    target = f"{CALC}::decomp"
+    property_ids = PID
+
+    def call(self, cx, name, args, kwargs, node):
+        if name == "__pow__" and isinstance(args[0], int) and args[0] >= 1 and is_z3(args[1]) and z3.is_int(args[1]):
+            n, b = cx.ghost["n"], args[0]
+            for sign in (1, -1):
+                c = z3.simplify(args[1] - sign * n)  # exponent = sign * n + c with a concrete integer c
+                if z3.is_int_value(c):
+                    c = c.as_long()
+                    k = z3.RealVal(b) ** abs(c)
+                    k = z3.simplify(k if c >= 0 else 1 / k)
+                    pn = z3.ToReal(pow_fn(b)(n))
+                    return k * pn if sign == 1 else k / pn
+        return NotImplemented
+
+
+def provider_decomp_partials(tier):
+    """E4 (ast of the module-level bindings) + one arithmetic obligation:  pauli_decomp = partial(decomp, fn=pauli,
+    fn_args=<the four distinct Pauli labels>, fn_d=2, nmlz_func=f) with  f(n) * fn_d ** n == 1 for ALL n >= 0  (a string of
+    n Paulis squares to the identity of dimension 2**n, so tr(P a) / 2**n is the coefficient of P);  bell_decomp binds the
+    four Bell states, fn_d = 4 and normalisation 1 (populations)"""
+    out = []
+    src = open(os.path.join(P.REPO, CALC)).read()
+    tree = ast.parse(src)
+    binds = {}
+    for st in tree.body:
+        if isinstance(st, ast.Assign) and len(st.targets) == 1 and isinstance(st.targets[0], ast.Name) and \
+                st.targets[0].id in ("pauli_decomp", "bell_decomp") and isinstance(st.value, ast.Call) and \
+                ast.unparse(st.value.func) in ("functools.partial", "partial"):
+            binds[st.targets[0].id] = st.value
+    for nm, labels, fn, fd in (("pauli_decomp", list("IXYZ"), "pauli", 2), ("bell_decomp", [0, 1, 2, 3], "bell_state", 4)):
+        t0 = time.time()
+        call = binds.get(nm)
+        if call is None:
+            out.append(_ob(nm, "binding-found", False, t0, unknown=True, detail=f"no module-level `{nm} = functools.partial(...)`",
+                           kind="e4", backend="ast", engine="E4"))
+            continue
+        kw = {k.arg: k.value for k in call.keywords}
+        pos = [ast.unparse(x) for x in call.args]
+        try:
+            fargs = list(ast.literal_eval(kw["fn_args"]))
+        except Exception:  # noqa
+            fargs = None
+        ok = pos == ["decomp"] and ast.unparse(kw.get("fn", ast.Constant(None))) == fn
+        out.append(_ob(nm, f"binds-decomp-with-fn={fn}", ok, t0, model=dict(found=ast.unparse(call)), kind="e4", backend="ast", engine="E4"))
+        ok = fargs is not None and sorted(map(str, fargs)) == sorted(map(str, labels)) and len(set(fargs)) == len(fargs)
+        out.append(_ob(nm, "fn_args-are-the-four-distinct-labels", ok, t0, model=dict(fn_args=str(fargs), expected=str(labels)),
+                       kind="e4", backend="ast", engine="E4"))
+        try:
+            fdv = ast.literal_eval(kw["fn_d"])
+        except Exception:  # noqa
+            fdv = None
+        out.append(_ob(nm, f"fn_d-is-the-dimension-{fd}-of-one-factor", fdv == fd, t0, model=dict(fn_d=str(fdv)), kind="e4",
+                       backend="ast", engine="E4"))
+        lam = kw.get("nmlz_func")
+        t0 = time.time()
+        if not isinstance(lam, ast.Lambda) or len(lam.args.args) != 1 or fdv != fd:
+            out.append(_ob(nm, "normalisation", False, t0, unknown=True, detail="nmlz_func is not a one-argument lambda", kind="e4",
+                           backend="ast", engine="E4"))
+            continue
+        con = _LambdaEval()
+        cx = P.Ctx(con, NS(name=""), (), lam, P.Collector())
+        n = z3.Int("n")
+        cx.ghost["n"] = n
+        try:
+            val = cx.apply_lambda(("lambda", lam, {}), [n])
+        except Unsupported as e:
+            out.append(_ob(nm, "normalisation", False, t0, unknown=True, detail=f"lambda outside the evaluator's subset: {e}", kind="e4",
+                           backend="ast", engine="E4"))
+            continue
+        p = pow_fn(fd)
+        if nm == "pauli_decomp":
+            # hypothesis: pow2(n) >= 1 (lemmas pow2-positive-base / -step, induction on n)
+            ob = P.Obligation(f"{CALC}::{nm}", "nmlz_func(n) * fn_d**n == 1 for all n >= 0", "e4", lam.lineno,
+                              [n >= 0, p(n) >= 1], R(val) * z3.ToReal(p(n)) == 1)
+        else:
+            ob = P.Obligation(f"{CALC}::{nm}", "nmlz_func(n) == 1 for all n (populations are not rescaled)", "e4", lam.lineno,
+                              [n >= 0], R(val) == 1)
+        P.discharge(ob)
+        out.append(_ob(nm, ob.label, ob.status == "discharged", t0, model=dict(lambda_=ast.unparse(lam), z3_model=ob.model),
+                       unknown=ob.status == "unknown", kind="e4", backend=ob.backend, engine="E4"))
+    return out
+
+
+def provider_pauli_decomp(tier):
+    """pauli_decomp(a, mode='c') for n = 1, 2, 3 on EVERY matrix unit |r><c| of the 2**n-dimensional space (the function
+    is linear in a -- trusted: expec is linear -- so the matrix units decide every operator) and on one dense complex a:
+      names: the 4**n strings over I, X, Y, Z, each exactly once (the overlap leaf is called 4**n times, once per string);
+      coefficient of P: tr(P a) / 2**n (exact in floating point: entries 0, +-1, +-i scaled by a power of two);
+      sum_P c_P P == a;  ordered by non-increasing magnitude"""
+    import numpy as np
+
+    calc = _load(CALC, "quimb.calc")
+    out = []
+    PM = {k: np.array(v, dtype=complex) for k, v in PAULI_TEXTBOOK.items()}
+    real_expec = calc.expec
+    for n in (1, 2, 3):
+        t0 = time.time()
+        D = 2 ** n
+        strings = ["".join(s) for s in itertools.product("IXYZ", repeat=n)]
+        mats = {}
+        for s in strings:
+            m = np.ones((1, 1), dtype=complex)
+            for ch in s:
+                m = np.kron(m, PM[ch])
+            mats[s] = m
+        bad_names, bad_coeff, bad_sum, bad_order = [], [], [], []
+        inputs = [(f"matrix unit |{r}><{c}| of dimension {D}", r, c) for r in range(D) for c in range(D)] + [("dense complex a", None, None)]
+        for desc, r, c in inputs:
+            if r is None:
+                a = (np.arange(D * D).reshape(D, D) % 7 - 3) + 1j * (np.arange(D * D).reshape(D, D) % 5 - 2)
+                a = a.astype(complex)
+            else:
+                a = np.zeros((D, D), dtype=complex)
+                a[r, c] = 1
+            calls = []
+
+            def counting_expec(x, y, calls=calls):
+                calls.append(1)
+                return real_expec(x, y)
+
+            call = f"pauli_decomp({desc}, mode='c')"
+            calc.expec = counting_expec
+            try:
+                import quimb as qu
+                res = calc.pauli_decomp(qu.qarray(a), mode="c")
+            except Exception as e:  # noqa
+                bad_names.append(dict(call=call, raised=f"{type(e).__name__}: {e}"))
+                continue
+            finally:
+                calc.expec = real_expec
+            names = list(res)
+            if sorted(names) != sorted(strings) or len(calls) != 4 ** n:
+                bad_names.append(dict(call=call, observed=f"{len(names)} names, {len(calls)} overlaps; missing "
+                                                          f"{sorted(set(strings) - set(names))[:4]}, extra {sorted(set(names) - set(strings))[:4]}",
+                                      expected=f"the {4 ** n} strings over IXYZ, one overlap each"))
+                continue
+            for s in strings:
+                want = np.trace(mats[s] @ a) / D
+                if complex(res[s]) != complex(want):
+                    bad_coeff.append(dict(call=call, observed=f"c[{s}] = {complex(res[s])!r}", expected=f"tr(P a)/2**{n} = {complex(want)!r}"))
+                    break
+            tot = sum(complex(res[s]) * mats[s] for s in strings)
+            if not np.array_equal(tot, a):
+                bad_sum.append(dict(call=call, observed="sum_P c_P P != a", expected="a"))
+            mags = [abs(complex(res[s])) for s in names]
+            if any(mags[i] < mags[i + 1] for i in range(len(mags) - 1)):
+                bad_order.append(dict(call=call, observed=str([round(m, 4) for m in mags[:8]]), expected="non-increasing magnitudes"))
+        dom = f"n={n}: {len(inputs)} operators x {4 ** n} strings"
+        for lab, bad in (("every-Pauli-string-enumerated-exactly-once", bad_names), ("coefficient-is-tr(P a)/2**n", bad_coeff),
+                         ("decomposition-sums-to-the-operator", bad_sum), ("ordered-by-non-increasing-magnitude", bad_order)):
+            out.append(_ob("decomp", f"{lab}[pauli,n={n}]", not bad, t0,
+                           model=dict(domain=dom, violations=len(bad), counterexample=bad[:1], more=bad[1:4])))
+    return out
+
+
+def provider_pauli_correlations(tier):
+    """pauli_correlations with its callee `correlation` (and `pauli`) replaced by recording stubs, for EVERY tuple of one or
+    two (thorough: three) operator pairs over the letters x, y, z, every ordered pair of distinct sites of 3, sum_abs and
+    precomp_func both ways: entry t is correlation(p, pauli(first letter), pauli(second letter), sysa, sysb,
+    precomp_func=...), in order; sum_abs adds the absolute values (of the functions' values when precomp_func)"""
+    calc = _load(CALC, "quimb.calc")
+    out = []
+    real_corr, real_pauli = calc.correlation, calc.pauli
+    pairs = ["".join(s) for s in itertools.product("xyz", repeat=2)]
+    maxlen = 3 if tier == "thorough" else 2
+    sss = [t for L in range(1, maxlen + 1) for t in itertools.product(pairs, repeat=L)]
+
+    def val(A, B, sa, sb, state):
+        # a deterministic value depending on everything (both signs occur)
+        h = (ord(A[1]) * 7 + ord(B[1]) * 13 + sa * 3 + sb * 5 + (11 if state == "p'" else 0)) % 17
+        return (h - 8) / 4.0
+
+    def stub_corr(p, A, B, sysa, sysb, dims=None, sparse=None, precomp_func=False):
+        if dims is not None or sparse is not None or not (isinstance(A, tuple) and isinstance(B, tuple)):
+            raise AssertionError("unexpected arguments handed to correlation")
+        if precomp_func:
+            return lambda state: val(A, B, sysa, sysb, state)
+        return val(A, B, sysa, sysb, p)
+
+    calc.correlation, calc.pauli = stub_corr, (lambda s, *a, **k: ("pauli", s.lower()))
+    try:
+        for sum_abs in (False, True):
+            for pc in (False, True):
+                t0 = time.time()
+                bad, ncalls = [], 0
+                for ss in sss:
+                    for sa, sb in itertools.permutations(range(3), 2):
+                        ncalls += 1
+                        call = f"pauli_correlations('p', ss={ss!r}, sysa={sa}, sysb={sb}, sum_abs={sum_abs}, precomp_func={pc})"
+                        want = [val(("pauli", s[0]), ("pauli", s[1]), sa, sb, "p'" if pc else "p") for s in ss]
+                        try:
+                            got = calc.pauli_correlations("p", ss=ss, sysa=sa, sysb=sb, sum_abs=sum_abs, precomp_func=pc)
+                            if sum_abs:
+                                got = got("p'") if pc else got
+                                okk = got == sum(abs(w) for w in want)
+                            else:
+                                got = [f("p'") for f in got] if pc else list(got)
+                                okk = got == want
+                        except Exception as e:  # noqa
+                            bad.append(dict(call=call, raised=f"{type(e).__name__}: {e}"))
+                            continue
+                        if not okk:
+                            bad.append(dict(call=call, observed=str(got), expected=str(sum(abs(w) for w in want) if sum_abs else want)))
+                out.append(_ob("pauli_correlations", f"letters-paired-with-sites-in-order[sum_abs={sum_abs},precomp_func={pc}]", not bad, t0,
+                               model=dict(domain=f"{len(sss)} operator-pair tuples x 6 site pairs = {ncalls} calls", violations=len(bad),
+                                          counterexample=bad[:1], more=bad[1:4])))
+    finally:
+        calc.correlation, calc.pauli = real_corr, real_pauli
+    return out
+
+
+def _embed(op, dims, where):
+    """plain numpy: operator acting on the subsystems `where` (tensor factors of op in that order) embedded into dims"""
+    import numpy as np
+
+    dims, where = list(dims), list(where)
+    n = len(dims)
+    rest = [q for q in range(n) if q not in where]
+    dr = int(np.prod([dims[q] for q in rest])) if rest else 1
+    full = np.kron(np.asarray(op, dtype=complex), np.eye(dr))
+    cur = where + rest
+    t = full.reshape([dims[q] for q in cur] * 2)
+    perm = [cur.index(q) for q in range(n)]
+    Dt = int(np.prod(dims))
+    return t.transpose(perm + [n + p_ for p_ in perm]).reshape(Dt, Dt)
+
+
+def provider_correlation_grid(tier):
+    """correlation with the REAL ikron on a complete small grid: every dims in {1,2,3}^2 and {1,2}^3 (thorough: {1,2,3}^3)
+    of total dimension > 1,
+    every ordered pair of distinct sites, sparse in {None, False, True}, operators dense or csr, state ket or operator --
+    integer-valued real symmetric operators and integer states, so <A_a B_b> - <A_a><B_b> is exact; reference: plain numpy
+    Kronecker embedding"""
+    import numpy as np
+    import scipy.sparse as sp
+
+    calc = _load(CALC, "quimb.calc")
+    import quimb as qu
+
+    def sym(d, off):
+        m = np.arange(off, off + d * d).reshape(d, d) % 5 - 2
+        return (m + m.T).astype(complex)
+
+    out = []
+    # (total dimension 1 is left out: a 1 x 1 array is both a ket and an operator, the value is a matter of convention)
+    grids = {2: [d for d in itertools.product((1, 2, 3), repeat=2) if max(d) > 1],
+             3: [d for d in itertools.product((1, 2, 3) if tier == "thorough" else (1, 2), repeat=3) if max(d) > 1]}
+    for K, dimss in grids.items():
+        for sparse in (None, False, True):
+            for opk in ("dense", "csr"):
+                t0 = time.time()
+                bad, ncalls = [], 0
+                for dims in dimss:
+                    Dt = int(np.prod(dims))
+                    psi = (np.arange(1, Dt + 1) % 4 + 1).astype(complex).reshape(-1, 1)
+                    for sa, sb in itertools.permutations(range(K), 2):
+                        A0, B0 = sym(dims[sa], 1), sym(dims[sb], 3)
+                        EA, EB = _embed(A0, dims, [sa]), _embed(B0, dims, [sb])
+                        for sk in ("ket", "op"):
+                            rho = psi @ psi.conj().T
+                            ex = (lambda M: complex((psi.conj().T @ M @ psi)[0, 0])) if sk == "ket" else (lambda M: complex(np.trace(M @ rho)))
+                            want = (ex(EA @ EB) - ex(EA) * ex(EB)).real
+                            A = qu.qarray(A0) if opk == "dense" else sp.csr_matrix(A0)
+                            B = qu.qarray(B0) if opk == "dense" else sp.csr_matrix(B0)
+                            state = qu.qarray(psi if sk == "ket" else rho)
+                            call = (f"correlation({sk} of dims {list(dims)}, A[{dims[sa]}x{dims[sa]}] {opk}, B[{dims[sb]}x{dims[sb]}] {opk}, "
+                                    f"sysa={sa}, sysb={sb}, dims={list(dims)}, sparse={sparse})")
+                            ncalls += 1
+                            try:
+                                got = calc.correlation(state, A, B, sa, sb, dims=list(dims), sparse=sparse)
+                                if abs(complex(got) - want) > 1e-9 * max(1.0, abs(want)):
+                                    bad.append(dict(call=call, observed=repr(complex(got)), expected=repr(want)))
+                            except Exception as e:  # noqa
+                                bad.append(dict(call=call, raised=f"{type(e).__name__}: {e}", expected=repr(want)))
+                out.append(_ob("correlation", f"<A_a B_b> - <A_a><B_b> on the complete grid[K={K},sparse={sparse},ops={opk}]", not bad, t0,
+                               model=dict(domain=f"{len(dimss)} dimension lists x {K * (K - 1)} site pairs x ket/op = {ncalls} calls",
+                                          violations=len(bad), counterexample=bad[:1], more=bad[1:4])))
+    return out
+
+
+def provider_fdx(tier):
+    """all provider obligations of C20"""
+    out = []
+    for p in (provider_decomp_partials, provider_pauli_decomp, provider_pauli_correlations, provider_simulate_counts,
+              provider_correlation_grid):
+        out.extend(p(tier))
+    return out
+
+
+# =====================================================================================================================
+# purify : eigenvalue i <-> eigenvector column i <-> ancilla basis state i      concurrence : the reduced pair
+# =====================================================================================================================
+# (appended after the providers; registered like the contracts above)
+
+
+class TermAcc:
+    """sum_i c_i * kron(column i of vecs, basis_vec(i, d)): coefficient per index (z3 array Int -> Real)"""
+
+    def __init__(self, coef, rows):
+        self.coef, self.rows = coef, rows
+
+
+class KronTerm:
+    def __init__(self, col, bas, dim, vecs):
+        self.col, self.bas, self.dim, self.vecs = col, bas, dim, vecs
+
+
+clip01 = z3.Function("clip_0_1", REAL, REAL)
+sqrt_ = z3.Function("sqrt", REAL, REAL)
+sqrtclip = lambda x: sqrt_(clip01(x))
+
+
+@register
+class Purify(EigBase):
+    """psi = sum_i sqrt(clip(l_i, 0, 1)) * kron(v_i, |i>) over ALL d eigenpairs of rho, |i> the i-th basis state of a
+    d-level ancilla: proved for an arbitrary index j (coefficient of term j is sqrt(clip(l_j)), every term pairs column i
+    with basis state i of dimension d); the accumulator has d**2 rows"""
+
+    target = f"{CALC}::purify"
+    floor = 6
+    bounded = ("distances",)
+
+    def inputs(self, cx, case):
+        self.eig_inputs(cx, "operator")
+        cx.ghost["rho"] = cx.ghost["A"]
+        return dict(rho=cx.ghost["A"])
+
+    def requires(self, a, case):
+        return {"d>=1": z3.Int("n") >= 1, "skolem-index": And(0 <= SKJ, SKJ < z3.Int("n"))}
+
+    def attr(self, cx, base, attr, node):
+        if base is cx.ghost.get("rho") and attr == "shape":
+            return (cx.ghost["n"], cx.ghost["n"])
+        if isinstance(base, Arr) and attr == "flat":
+            return base
+        if base is None and attr == "complex":
+            return "complex"
+        return super().attr(cx, base, attr, node)
+
+    def call(self, cx, name, args, kwargs, node):
+        g = cx.ghost
+        if name == "np.clip" and len(args) == 3 and isinstance(args[0], Spec_) and args[1:] == [0, 1]:
+            i = z3.Int("i!lam")
+            return Arr(z3.Lambda([i], clip01(el_of(args[0].z, i))), (args[0].n,))
+        if name == "np.sqrt" and len(args) == 1 and isinstance(args[0], Arr) and args[0].ndim == 1:
+            i = z3.Int("i!lam2")
+            return Arr(z3.Lambda([i], sqrt_(z3.Select(args[0].a, i))), args[0].shape)
+        if name == "np.zeros" and set(kwargs) <= {"shape", "dtype"} and "shape" in kwargs and not args:
+            sh = kwargs["shape"]
+            if not (isinstance(sh, tuple) and len(sh) == 2 and sh[1] == 1):
+                raise Unsupported("zeros shape")
+            return TermAcc(z3.K(INT, z3.RealVal(0)), sh[0])
+        if name == "__getitem__" and isinstance(args[0], Vecs) and isinstance(args[1], tuple) and len(args[1]) == 2 \
+                and args[1][0] == slice(None, None, None) and isinstance(args[1][1], list) and len(args[1][1]) == 1 and not args[0].dag:
+            i = args[1][1][0]
+            cx.oblige(f"index@{node.lineno}:column-exists", "safety", And(0 <= i, i < args[0].n), node.lineno)
+            return Col(args[0], i)
+        if name == "basis_vec" and len(args) == 2 and not kwargs:
+            cx.oblige(f"call-pre@{node.lineno}:basis_vec:0<=i<dim", "call-pre", And(0 <= args[0], args[0] < args[1]), node.lineno)
+            return ("basis", args[0], args[1])
+        if name == "kron" and len(args) == 2 and isinstance(args[0], Col) and isinstance(args[1], tuple) and args[1][0] == "basis":
+            return KronTerm(args[0].i, args[1][1], args[1][2], args[0].vecs)
+        if name == "__binop__" and args[0] == "Mult" and is_z3(args[1]) and isinstance(args[2], KronTerm):
+            return Scaled(args[1], args[2])
+        if name == "__binop__" and args[0] == "Add" and isinstance(args[1], TermAcc) and isinstance(args[2], KronTerm):
+            args = [args[0], args[1], Scaled(1, args[2])]
+        if name == "__binop__" and args[0] == "Add" and isinstance(args[1], TermAcc) and isinstance(args[2], Scaled) \
+                and isinstance(args[2].x, KronTerm):
+            acc, c, t = args[1], args[2].c, args[2].x
+            cx.oblige(f"enc@{node.lineno}:eigenvector-i-paired-with-ancilla-state-i-of-dimension-d", "enc",
+                      And(t.col == t.bas, t.dim == g["n"], t.vecs.z.eq(g["ev"].z)), node.lineno)
+            return TermAcc(z3.Store(acc.coef, t.col, z3.Select(acc.coef, t.col) + R(c)), acc.rows)
+        if name == "qu" and len(args) == 1 and isinstance(args[0], TermAcc) and not kwargs:
+            return args[0]
+        return super().call(cx, name, args, kwargs, node)
+
+    def inv(self, v):
+        g = v.cx.ghost
+        return {"coefficient-so-far": z3.Select(v.psi.coef, SKJ) == If(SKJ < v._it0, sqrtclip(el_of(g["el"].z, SKJ)), 0),
+                "rows": v.psi.rows == g["n"] * g["n"]}
+
+    @property
+    def loops(self):
+        return {0: Loop("for (i, evals) in enumerate(evals.flat)", self.inv,
+                        retype={"psi": lambda cx: TermAcc(cx.Array("psi_coef", INT, REAL), cx.env["psi"].rows),
+                                "evals": lambda cx: cx.Real("evals_item")})}
+
+    def ensures(self, a, r, cx, case):
+        g = cx.ghost
+        ok = isinstance(r, TermAcc)
+        d = {"returns-the-accumulated-ket": ok}
+        if not ok:
+            return d
+        d["coefficient-of-term-j-is-sqrt(clip(l_j))"] = z3.Select(r.coef, SKJ) == sqrtclip(el_of(g["el"].z, SKJ))
+        d["d**2-rows"] = r.rows == g["n"] * g["n"]
+        d["eigh-of-rho"] = g.get("eigh_kwargs") == {}
+        return d
+
+
+def term_mentions(t, target):
+    """does the z3 term t contain the sub-term target?"""
+    seen, stack = set(), [t]
+    while stack:
+        x = stack.pop()
+        if x.get_id() in seen:
+            continue
+        seen.add(x.get_id())
+        if x.eq(target):
+            return True
+        stack.extend(x.children())
+    return False
+
+
+@register
+class Concurrence(Base):
+    """the formula is evaluated on the reduced state of the pair {sysa, sysb} when there are more than two subsystems (the
+    measure is symmetric under exchanging the two qubits, so their order is immaterial) and on p itself otherwise: the
+    result depends on p only THROUGH that state.  The formula itself (Wootters) is numerical: bounded driver."""
+
+    target = f"{CALC}::concurrence"
+    floor = 4
+
+    def cases(self):
+        return [NS(name=f"K={k},{s}", K=k, isop=s == "op") for k in (2, 3, 4) for s in ("op", "ket")]
+
+    def inputs(self, cx, case):
+        return dict(p=St(cx.Val("p")), dims=dims_inputs(cx, case.K), sysa=cx.Int("sysa"), sysb=cx.Int("sysb"))
+
+    def requires(self, a, case):
+        K = case.K
+        return {"two-distinct-subsystems": And(0 <= a.sysa, a.sysa < K, 0 <= a.sysb, a.sysb < K, a.sysa != a.sysb)}
+
+    def attr(self, cx, base, attr, node):
+        if isinstance(base, St) and attr in ("real", "imag", "H", "T"):
+            return St(U("attr_" + attr, [base]))
+        return NotImplemented
+
+    def call(self, cx, name, args, kwargs, node):
+        if name == "isop":
+            return cx.case.isop
+        if name == "pauli" and len(args) == 1 and isinstance(args[0], str):
+            return St(U("pauli_" + args[0].lower(), []))
+        r = super().call(cx, name, args, kwargs, node)
+        if r is not NotImplemented:
+            return r
+        if name in ("max", "abs") and any(isinstance(x, St) for x in args) and all(isinstance(x, St) or is_num(x) for x in args):
+            return St(U("fn_" + name, [x if isinstance(x, St) else R(x) for x in args]))
+        if (name in ("dot", "kron", "dag", "nla.eigvals", "np.max", "np.sum", "np.real", "np.abs", "np.sqrt") or
+            name in (".conj", ".item", ".conjugate")) and args and isinstance(args[0], St) and not kwargs and \
+                all(isinstance(x, St) or is_num(x) for x in args):
+            # numerical leaves: uninterpreted (the formula is not under contract)
+            return St(U("fn_" + name.lstrip("."), [x if isinstance(x, St) else R(x) for x in args]))
+        return NotImplemented
+
+    def ensures(self, a, r, cx, case):
+        ok = isinstance(r, St)
+        d = {"returns-a-function-of-a-state": ok}
+        if not ok:
+            return d
+        if case.K == 2:
+            d["evaluated-on-p-itself"] = term_mentions(r.z, a.p.z)
+            return d
+        red = t_ptr(a.p, a.dims, mvec((a.sysa, a.sysb), case.K))
+        X = z3.Const("X!reduced", V)
+        d["depends-on-the-reduced-state-of-the-pair"] = term_mentions(r.z, red)
+        d["depends-on-p-only-through-the-reduced-state-of-the-pair"] = not term_mentions(z3.substitute(r.z, (red, X)), a.p.z)
+        return d
